@@ -30,12 +30,23 @@ RULE = ("static: all functions/methods of the ten pyins modules are translated (
         "a case is distinct by (callable, argument form, check kind)")
 
 
+class _Dyn:
+    """the dynamic validation (second half of this file)"""
+    @staticmethod
+    def run_dynamic(r, n_rounds):
+        return run_dynamic(r, n_rounds)
+
+    @staticmethod
+    def replay(obj):
+        return replay_dynamic(obj)
+
+    @staticmethod
+    def public_callables():
+        return public_callables()
+
+
 def _dyn():
-    try:
-        from props import C19_dyn
-        return C19_dyn
-    except ImportError:
-        return None
+    return _Dyn
 
 
 def static_part(r):
@@ -92,7 +103,7 @@ def check(r):
         r.prove('Props/C19.v')
     dyn = _dyn()
     if dyn is None:
-        r.broken('harness', 'dynamic validation module missing', 'tools/props/C19_dyn.py')
+        r.broken('harness', 'dynamic validation missing', '')
     else:
         n_rounds = 1 if r.tier == 'quick' else 6
         try:
@@ -112,7 +123,9 @@ def check(r):
             except Exception:
                 r.broken('coverage', 'enumeration comparison failed', traceback.format_exc())
     if r.tier == 'thorough':
-        r.hygiene()
+        r.hygiene('Props/C19.v')
+        if hasattr(r, 'coqchk'):
+            r.coqchk('Props/C19.v')
 
 
 def falsify(r):
@@ -128,3 +141,2278 @@ def replay(obj):
         print(obj)
         return 1 if obj.get('no_failing_input_found') else 0
     return dyn.replay(rep)
+
+
+# ==================================================================================================
+# DYNAMIC VALIDATION (written as a separate module, merged here: one harness file per property)
+# ==================================================================================================
+"""C19 (dynamic part) -- public callables are pure, deterministic, form-independent and
+keep the documented schema.
+
+The public API is ENUMERATED from the ``.. autosummary::`` lists of the ten module
+docstrings at run time; every enumerated callable needs an argument builder in BUILDERS
+(fail closed: a public callable without builder is ``r.broken('coverage', ...)``).
+
+For every (callable, argument form) case the runner
+  a. snapshots every argument (and constructor inputs still held by the caller, and the
+     callable's default arguments) before and after the call          -> kind 'mutation'
+  b. calls twice with fresh equal inputs / equal integer seeds, with other callables
+     called in between, and a third time at the end of the run; compares bit for bit;
+     watches numpy's global RandomState                              -> kind 'determinism'
+  c. compares the values of list/tuple/ndarray/Fortran/strided/pandas forms and of
+     scalar vs stacked forms of the same input                            -> kind 'forms'
+  d. checks documented columns / index of returned tables                -> kind 'schema'
+
+Only random.Random(seed + k) / np.random.RandomState(seed + k) created locally are used.
+"""
+import importlib
+import inspect
+import random
+import struct
+import time
+import traceback
+import types
+import warnings
+
+import numpy as np
+import pandas as pd
+
+MODULES = ['earth', 'error_model', 'filters', 'inertial_sensor', 'kalman', 'measurements',
+           'sim', 'strapdown', 'transform', 'util']
+EXTRA = ['transform.ecef_to_lla']          # public-looking, but not in the autosummary
+
+# If the lead decides that the recorded findings (see FINDING_* below) are to be shown as
+# violations (with a ``key`` so that known_findings.txt can match them) set this to True.
+REPORT_FINDINGS_AS_VIOLATIONS = False
+
+# ---------------------------------------------------------------------------------------
+# Documented schema: literal copy of pyins/__init__.py:3-31 and of the function docstrings.
+DOC_LLA = ['lat', 'lon', 'alt']
+DOC_VEL = ['VN', 'VE', 'VD']
+DOC_RPH = ['roll', 'pitch', 'heading']
+DOC_NED = ['north', 'east', 'down']
+DOC_RATE = ['rate_x', 'rate_y', 'rate_z']
+DOC_GYRO = ['gyro_x', 'gyro_y', 'gyro_z']
+DOC_ACCEL = ['accel_x', 'accel_y', 'accel_z']
+DOC_THETA = ['theta_x', 'theta_y', 'theta_z']
+DOC_DV = ['dv_x', 'dv_y', 'dv_z']
+DOC_BODY_VEL = ['VX', 'VY', 'VZ']
+DOC_TRAJECTORY = ['lat', 'lon', 'alt', 'VN', 'VE', 'VD', 'roll', 'pitch', 'heading']
+DOC_IMU = ['gyro_x', 'gyro_y', 'gyro_z', 'accel_x', 'accel_y', 'accel_z']
+DOC_INCREMENTS = ['dt', 'theta_x', 'theta_y', 'theta_z', 'dv_x', 'dv_y', 'dv_z']
+DOC_TRAJECTORY_ERROR = ['north', 'east', 'down', 'VN', 'VE', 'VD', 'roll', 'pitch', 'heading']
+DOC_STATES_3D = ['DR1', 'DR2', 'DR3', 'DV1', 'DV2', 'DV3', 'PHI1', 'PHI2', 'PHI3']
+DOC_STATES_2D = ['DR1', 'DR2', 'DV1', 'DV2', 'PHI1', 'PHI2', 'PHI3']
+UTIL_CONSTANTS = dict(
+    LLA_COLS=DOC_LLA, VEL_COLS=DOC_VEL, RPH_COLS=DOC_RPH, RATE_COLS=DOC_RATE,
+    GYRO_COLS=DOC_GYRO, ACCEL_COLS=DOC_ACCEL, THETA_COLS=DOC_THETA, DV_COLS=DOC_DV,
+    NED_COLS=DOC_NED, TRAJECTORY_COLS=DOC_TRAJECTORY,
+    TRAJECTORY_ERROR_COLS=DOC_TRAJECTORY_ERROR)
+R_EARTH = 6.4e6
+
+_PX = None
+
+
+def P():
+    """The pyins modules (imported lazily, warnings silenced)."""
+    global _PX
+    if _PX is None:
+        with warnings.catch_warnings():
+            warnings.simplefilter('ignore')
+            ns = types.SimpleNamespace()
+            for m in MODULES:
+                setattr(ns, m, importlib.import_module('pyins.' + m))
+        _PX = ns
+    return _PX
+
+
+# ---------------------------------------------------------------------------------------
+# 1. enumeration of the public API from the module docstrings
+def _autosummary_names(doc, section):
+    lines = (doc or '').splitlines()
+
+    def underline(k):
+        s = lines[k].strip() if k < len(lines) else ''
+        return bool(s) and set(s) == {'-'}
+
+    out = []
+    for i in range(len(lines) - 1):
+        if lines[i].strip() == section and underline(i + 1):
+            j = i + 2
+            while j < len(lines) and not lines[j].strip().startswith('.. autosummary::'):
+                if underline(j + 1):
+                    return out
+                j += 1
+            j += 1
+            started = False
+            while j < len(lines):
+                s, st = lines[j], lines[j].strip()
+                if not st:
+                    if started:
+                        break
+                elif not s.startswith((' ', '\t')):
+                    break
+                elif not st.startswith(':'):
+                    out.append(st)
+                    started = True
+                j += 1
+            break
+    return out
+
+
+def enumerate_api():
+    """[(name, kind)] with kind in function/init/method/property/classmethod/staticmethod."""
+    px = P()
+    out = []
+    for m in MODULES:
+        mod = getattr(px, m)
+        for f in _autosummary_names(mod.__doc__, 'Functions'):
+            out.append((f"{m}.{f}", 'function'))
+        for c in _autosummary_names(mod.__doc__, 'Classes'):
+            cls = getattr(mod, c)
+            out.append((f"{m}.{c}.__init__", 'init'))
+            seen = set()
+            for k in cls.__mro__:
+                if not (k.__module__ or '').startswith('pyins'):
+                    continue
+                for a, v in vars(k).items():
+                    if a.startswith('_') or a in seen:
+                        continue
+                    kind = ('property' if isinstance(v, property) else
+                            'classmethod' if isinstance(v, classmethod) else
+                            'staticmethod' if isinstance(v, staticmethod) else
+                            'method' if inspect.isfunction(v) else None)
+                    if kind:
+                        seen.add(a)
+                        out.append((f"{m}.{c}.{a}", kind))
+    return out
+
+
+def public_callables():
+    return [n for n, _ in enumerate_api()]
+
+
+def _resolve(name):
+    parts = name.split('.')
+    obj = getattr(P(), parts[0])
+    for p in parts[1:]:
+        obj = inspect.getattr_static(obj, p) if inspect.isclass(obj) else getattr(obj, p)
+    return obj
+
+
+def _defaults_of(name):
+    try:
+        o = _resolve(name)
+    except Exception:
+        return None
+    if isinstance(o, (classmethod, staticmethod)):
+        o = o.__func__
+    if isinstance(o, property):
+        o = o.fget
+    return (getattr(o, '__defaults__', None), getattr(o, '__kwdefaults__', None))
+
+
+# ---------------------------------------------------------------------------------------
+# 2. snapshots (bit exact) and value comparison
+def _is_pyins_obj(o):
+    return (type(o).__module__ or '').startswith('pyins') and hasattr(o, '__dict__')
+
+
+def _vars(o):
+    """Attributes of a pyins object.  strapdown.Integrator keeps np.empty work buffers of
+    10000 rows: only the rows filled so far (len(trajectory)) are state."""
+    d = dict(vars(o))
+    if type(o).__name__ == 'Integrator' and isinstance(d.get('trajectory'), pd.DataFrame):
+        n = len(d['trajectory'])
+        for k in ('lla', 'velocity_n', 'mat_nb'):
+            if isinstance(d.get(k), np.ndarray):
+                d[k] = d[k][:n]
+    return d
+
+
+def _idx_snap(ix):
+    a = ix.to_numpy()
+    body = tuple(map(repr, a.tolist())) if a.dtype == object else a.tobytes()
+    return ('idx', str(a.dtype), len(a), body, repr(ix.name))
+
+
+def _arr_body(a):
+    if a.dtype == object:
+        return tuple(map(repr, a.ravel().tolist()))
+    return a.tobytes()
+
+
+def snap(o, args_mode=False, depth=0):
+    """Canonical bit-exact snapshot (nested tuples).  args_mode: snapshot of an argument
+    (RandomState attributes of objects are skipped, the base of an ndarray view is included)."""
+    if depth > 8:
+        return ('deep',)
+    if isinstance(o, np.ndarray):
+        base = None
+        if args_mode and isinstance(o.base, np.ndarray):
+            base = _arr_body(o.base)
+        return ('nd', o.dtype.str, o.shape, _arr_body(o), bool(o.flags.writeable), base)
+    if isinstance(o, pd.DataFrame):
+        return ('df', _arr_body(o.to_numpy()), o.shape, _idx_snap(o.index),
+                tuple(map(repr, o.columns.tolist())), repr(o.columns.name),
+                tuple(str(t) for t in o.dtypes))
+    if isinstance(o, pd.Series):
+        return ('ser', _arr_body(o.to_numpy()), str(o.dtype), _idx_snap(o.index), repr(o.name))
+    if isinstance(o, pd.Index):
+        return _idx_snap(o)
+    if isinstance(o, (bool, np.bool_)):
+        return ('bool', bool(o))
+    if isinstance(o, (float, np.floating)):
+        return ('f', type(o).__name__, struct.pack('<d', float(o)))
+    if isinstance(o, (int, np.integer)):
+        return ('i', int(o))
+    if isinstance(o, (str, bytes)) or o is None:
+        return ('py', repr(o))
+    if isinstance(o, dict):
+        return ('dict', type(o).__name__,
+                tuple((repr(k), snap(v, args_mode, depth + 1)) for k, v in o.items()))
+    if isinstance(o, (list, tuple)):
+        return ('seq', type(o).__name__, tuple(snap(v, args_mode, depth + 1) for v in o))
+    if isinstance(o, np.random.RandomState):
+        if args_mode:
+            return ('rng', 'skipped')
+        s = o.get_state()
+        return ('rng', s[0], s[1].tobytes(), s[2], s[3], struct.pack('<d', s[4]))
+    if type(o).__name__ == 'Rotation':
+        return ('rot', _arr_body(np.asarray(o.as_quat())), np.shape(o.as_quat()))
+    if _is_pyins_obj(o):
+        return ('obj', type(o).__name__,
+                tuple((k, snap(v, args_mode, depth + 1)) for k, v in sorted(_vars(o).items())))
+    if isinstance(o, (types.FunctionType, types.MethodType, type)):
+        return ('callable', getattr(o, '__qualname__', repr(o)))
+    return ('repr', type(o).__name__, repr(o))
+
+
+def snap_diffs(a, b, path='', out=None, cap=20):
+    """Paths at which two snapshots differ."""
+    if out is None:
+        out = []
+    if len(out) >= cap or a == b:
+        return out
+    cont = ('dict', 'seq', 'obj')
+    if (isinstance(a, tuple) and isinstance(b, tuple) and a and b and a[0] == b[0] and a[0] in cont
+            and a[1] == b[1] and len(a[2]) == len(b[2])):
+        for k, (x, y) in enumerate(zip(a[2], b[2])):
+            if a[0] == 'seq':
+                snap_diffs(x, y, f"{path}[{k}]", out, cap)
+            elif x[0] != y[0]:
+                out.append(f"{path}.<keys>")
+                break
+            else:
+                key = x[0].strip("'") if a[0] == 'dict' else x[0]
+                snap_diffs(x[1], y[1], f"{path}.{key}" if path else key, out, cap)
+        return out
+    out.append(path or '<top>')
+    return out
+
+
+def collect_refs(o, path='', out=None, depth=0):
+    """(path, object) for every array/table/series/list reachable from the arguments --
+    used for the identity based mutation check (content of the ORIGINAL objects)."""
+    if out is None:
+        out = []
+    if depth > 6:
+        return out
+    if isinstance(o, (np.ndarray, pd.DataFrame, pd.Series, pd.Index)):
+        out.append((path, o))
+    elif isinstance(o, dict):
+        for k, v in o.items():
+            collect_refs(v, f"{path}.{k}" if path else str(k), out, depth + 1)
+    elif isinstance(o, (list, tuple)):
+        if isinstance(o, list):
+            out.append((path, o))
+        for k, v in enumerate(o):
+            collect_refs(v, f"{path}[{k}]", out, depth + 1)
+    elif _is_pyins_obj(o):
+        for k, v in sorted(_vars(o).items()):
+            collect_refs(v, f"{path}.{k}" if path else k, out, depth + 1)
+    return out
+
+
+def leaves(o, path='', out=None, depth=0):
+    """Numeric leaves [(path, float ndarray)] / other leaves [(path, repr)] of a result."""
+    if out is None:
+        out = []
+    if depth > 8:
+        return out
+    if isinstance(o, (pd.DataFrame, pd.Series)):
+        try:
+            out.append((path, np.asarray(o.to_numpy(), dtype=float)))
+        except (TypeError, ValueError):
+            out.append((path, repr(o.to_numpy().tolist())))
+    elif isinstance(o, np.ndarray):
+        if o.dtype == object:
+            out.append((path, repr(o.tolist())))
+        else:
+            out.append((path, np.asarray(o, dtype=float)))
+    elif isinstance(o, (bool, np.bool_, str)) or o is None:
+        out.append((path, repr(o)))
+    elif isinstance(o, (int, float, np.integer, np.floating)):
+        out.append((path, np.asarray(float(o))))
+    elif isinstance(o, dict):
+        for k, v in o.items():
+            leaves(v, f"{path}.{k}", out, depth + 1)
+    elif isinstance(o, (list, tuple)):
+        if o and all(isinstance(v, (int, float, np.integer, np.floating)) for v in o):
+            out.append((path, np.asarray(o, dtype=float)))
+        else:
+            for k, v in enumerate(o):
+                leaves(v, f"{path}[{k}]", out, depth + 1)
+    elif type(o).__name__ == 'Rotation':
+        out.append((path + '.as_matrix', np.asarray(o.as_matrix(), dtype=float)))
+    elif isinstance(o, np.random.RandomState):
+        pass
+    elif _is_pyins_obj(o):
+        for k, v in sorted(_vars(o).items()):
+            if not k.startswith('_'):
+                leaves(v, f"{path}.{k}", out, depth + 1)
+    else:
+        out.append((path, repr(o)))
+    return out
+
+
+def values_differ(ref, got, tol, scale=None):
+    """None if equal within tol (relative to the magnitude of the leaf, floor tol*scale),
+    else a description of the first difference."""
+    if tol == 0:
+        d = snap_diffs(snap(ref), snap(got))
+        return f"not bit-identical at {d[:4]}" if d else None
+    la, lb = leaves(ref), leaves(got)
+    if len(la) != len(lb):
+        return f"structure differs: {len(la)} vs {len(lb)} leaves"
+    for (pa, a), (pb, b) in zip(la, lb):
+        if isinstance(a, str) or isinstance(b, str):
+            if a != b:
+                return f"leaf {pa or '<top>'}: {str(a)[:60]} != {str(b)[:60]}"
+            continue
+        if a.shape != b.shape:
+            return f"leaf {pa or '<top>'}: shape {a.shape} != {b.shape}"
+        if a.size == 0:
+            continue
+        na, nb = np.isnan(a), np.isnan(b)
+        if (na != nb).any():
+            return f"leaf {pa or '<top>'}: NaN pattern differs"
+        fin = ~na & np.isfinite(a) & np.isfinite(b)
+        if (a[~na & ~fin] != b[~na & ~fin]).any():
+            return f"leaf {pa or '<top>'}: infinities differ"
+        if not fin.any():
+            continue
+        mag = max(float(np.abs(a[fin]).max()), float(np.abs(b[fin]).max()), scale or 0.0)
+        err = float(np.abs(a[fin] - b[fin]).max())
+        if err > tol * mag + 1e-300:
+            return (f"leaf {pa or '<top>'}: max abs difference {err:.3e} > {tol:g} * {mag:.3e}")
+    return None
+
+
+def row_of(R, i):
+    """Row i (or rows i, a slice) of a stacked result."""
+    if isinstance(R, tuple):
+        return tuple(row_of(x, i) for x in R)
+    if isinstance(R, (pd.DataFrame, pd.Series)):
+        return R.iloc[i]
+    return R[i]
+
+
+# ---------------------------------------------------------------------------------------
+# 3. argument forms
+NA = object()
+KINDS = ['ndarray', 'fortran', 'strided', 'list', 'tuple', 'pandas']
+
+
+def _totuple(x):
+    return tuple(_totuple(v) for v in x) if isinstance(x, list) else x
+
+
+def conv(v, kind, cols=None, index=None):
+    """Fresh object holding the numbers `v` in the given form (NA if not applicable).
+    0-d input: ndarray -> np.float64, strided -> 0-d ndarray, list -> python float."""
+    v = np.asarray(v, dtype=float)
+    if v.ndim == 0:
+        if kind == 'ndarray':
+            return np.float64(v)
+        if kind == 'strided':
+            return np.array(float(v))
+        if kind == 'list':
+            return float(v)
+        return NA
+    if kind == 'ndarray':
+        return np.array(v, dtype=np.float64, order='C')
+    if kind == 'fortran':
+        return np.array(v, dtype=np.float64, order='F') if v.ndim >= 2 else NA
+    if kind == 'strided':
+        big = np.full(v.shape[:-1] + (2 * v.shape[-1] + 1,), 7.25)
+        view = big[..., 1::2]
+        view[...] = v
+        return view
+    if kind == 'list':
+        return v.tolist()
+    if kind == 'tuple':
+        return _totuple(v.tolist())
+    if kind == 'pandas':
+        if v.ndim == 1:
+            if cols is not None and len(cols) == len(v):
+                return pd.Series(np.array(v), index=list(cols))
+            if cols is None:
+                return pd.Series(np.array(v), index=index)
+            return NA
+        if v.ndim == 2 and cols is not None and len(cols) == v.shape[1]:
+            return pd.DataFrame(np.array(v), index=index, columns=list(cols))
+    return NA
+
+
+class Ctx:
+    """One prepared call: `watch` = everything the caller holds (arguments, constructor
+    inputs), `call` = zero-argument closure, `exempt` = documented exceptions (path
+    prefixes in `watch`), `recv` = closure returning the receiver (its state is part of
+    the compared result, but may change)."""
+    def __init__(self, watch, call, exempt=(), recv=None, info=None):
+        self.watch, self.call, self.exempt, self.recv = watch, call, tuple(exempt), recv
+        self.info = info or {}
+
+
+class Case:
+    def __init__(self, name, form, build, group=None, expect=None, tol=1e-12, scale=None,
+                 schema=None, seeded='none', expect_exc=None, heavy=False, repeat=True,
+                 group_kind='forms', finding=None, env_blocked=None):
+        self.name, self.form, self.build = name, form, build
+        self.group = group                # cases of one group are compared with its first case
+        self.expect = expect              # projection of the reference result (default identity)
+        self.tol, self.scale = tol, scale
+        self.schema = schema              # f(result, ctx) -> list of problems
+        self.seeded = seeded              # 'none' | 'int' | 'global' (documented global RNG use)
+        self.expect_exc = expect_exc      # documented exception type
+        self.heavy, self.repeat = heavy, repeat
+        self.group_kind = group_kind      # kind reported when the group comparison fails
+        self.finding = finding            # key of a recorded finding on the reference tree
+        self.env_blocked = env_blocked    # (probe_name) the call cannot run in this environment
+
+
+# ---------------------------------------------------------------------------------------
+# 4. data set (one per seed and round), built through pyins itself
+class Data:
+    def __init__(self, seed, rnd=0):
+        self.seed, self.rnd = seed, rnd
+        py = random.Random(seed + 1900 + rnd)
+        self.py = py
+        self.rs = np.random.RandomState(seed + 1900 + rnd)      # local generator
+        self.n = 6 + 9 * rnd                                    # rows of stacked inputs
+        self.dt = py.choice([0.1, 0.05])
+        self.total = py.choice([20, 24, 28]) * (1.0 if self.dt == 0.1 else 0.5)
+        self.lla0 = [py.uniform(-70, 70), py.uniform(-170, 170), py.uniform(0, 2000)]
+        self.vmean = [py.uniform(3, 9) * py.choice([-1, 1]), py.uniform(3, 9) * py.choice([-1, 1]),
+                      py.uniform(-0.5, 0.5)]
+        self.vamp = [py.uniform(0.5, 2), py.uniform(0.5, 2), py.uniform(0.1, 0.5)]
+        self.period = py.uniform(10, 30)
+        self.mstep = int(round(1.0 / self.dt))                  # measurements at 1 Hz
+        self.i = py.randrange(1, self.n - 1)                    # row used for single forms
+        self._c = {}
+        n = self.n
+        rs = self.rs
+        self.lat = rs.uniform(-80, 80, n)
+        self.lon = rs.uniform(-180, 180, n)
+        self.alt = rs.uniform(-100, 5000, n)
+        self.lla = np.column_stack([self.lat, self.lon, self.alt])
+        self.lla2 = self.lla + np.column_stack([rs.uniform(-1e-3, 1e-3, (n, 2)),
+                                                rs.uniform(-50, 50, n)])
+        self.dr = rs.normal(0, 50, (n, 3))
+        self.rph = np.column_stack([rs.uniform(-170, 170, n), rs.uniform(-80, 80, n),
+                                    rs.uniform(-170, 170, n)])
+        self.vec = rs.normal(0, 3, (n, 3))
+        self.mats = rs.normal(0, 1, (n, 3, 3))
+        self.mats2 = rs.normal(0, 1, (n, 3, 3))
+        self.angles = np.concatenate([rs.uniform(-720, 720, n - 4), [180.0, -180.0, 540.0, 0.0]])
+        self.angles3 = rs.uniform(-720, 720, (n, 3))
+        self.tindex = pd.Index(np.arange(n) * 0.25, name='time')
+        self._pristine = None
+
+    def params(self):
+        return dict(seed=self.seed, round=self.rnd, n=self.n, dt=self.dt, total_time=self.total,
+                    lla0=self.lla0, velocity_mean=self.vmean, amplitude=self.vamp,
+                    period=self.period)
+
+    def _get(self, key, f):
+        if key not in self._c:
+            self._c[key] = f()
+        return self._c[key]
+
+    def _motion(self, st):
+        return self._get(('motion', st), lambda: P().sim.generate_sine_velocity_motion(
+            self.dt, self.total, list(self.lla0), list(self.vmean), list(self.vamp),
+            self.period, sensor_type=st))
+
+    def traj(self, st='increment'):
+        return self._motion(st)[0].copy()
+
+    def imu(self, st='increment'):
+        return self._motion(st)[1].copy()
+
+    def inc(self, st='increment'):
+        return self._get(('inc', st), lambda: P().strapdown.compute_increments_from_imu(
+            self._motion(st)[1].copy(), st)).copy()
+
+    def traj_att(self):
+        """True trajectory with non-trivial roll / pitch (same time index)."""
+        def f():
+            t = self.traj()
+            tt = t.index.to_numpy()
+            t['roll'] = 25 * np.sin(tt / 3 + 0.3)
+            t['pitch'] = 12 * np.cos(tt / 4 + 1.0)
+            return t
+        return self._get('traj_att', f).copy()
+
+    def traj_rate(self):
+        t = self.traj_att()
+        tt = t.index.to_numpy()
+        for k, c in enumerate(DOC_RATE):
+            t[c] = 0.05 * np.sin(tt / (2 + k) + k)
+        return t
+
+    def meas(self, kind):
+        def f():
+            sub = self.traj().iloc[self.mstep::self.mstep]
+            fn = dict(pos=P().sim.generate_position_measurements,
+                      vel=P().sim.generate_ned_velocity_measurements,
+                      body=P().sim.generate_body_velocity_measurements)[kind]
+            sd = dict(pos=1.0, vel=0.1, body=0.1)[kind]
+            return fn(sub, sd, rng=self.seed + 31 + len(kind))
+        return self._get(('meas', kind), f).copy()
+
+    def pva_error(self):
+        return self._get('pva_error', lambda: P().sim.generate_pva_error(
+            3.0, 0.3, 0.2, 0.8, rng=self.seed + 41)).copy()
+
+    def pva0(self):
+        return self._get('pva0', lambda: P().sim.perturb_pva(
+            self.traj().iloc[0], self.pva_error())).copy()
+
+    def computed(self, with_altitude=True):
+        def f():
+            it = P().strapdown.Integrator(self.pva0(), with_altitude)
+            it.integrate(self.inc())
+            return it.trajectory.copy()
+        return self._get(('computed', with_altitude), f).copy()
+
+    def pva(self, k=None, rate=False, own=False):
+        """A Pva Series: row k of the attitude-rich trajectory."""
+        t = self.traj_rate() if rate else self.traj_att()
+        k = (3 + self.i) if k is None else k
+        s = t.iloc[k]
+        if own:
+            s = pd.Series(np.array(s.to_numpy()), index=list(s.index), name=s.name)
+        return s
+
+    def est_model(self, which, sm):
+        em = P().inertial_sensor.EstimationModel
+        if which == 'gyro':
+            return em(bias_sd=1e-5, noise=1e-6, bias_walk=1e-8,
+                      scale_misal_sd=(np.full((3, 3), 1e-3) if sm else None))
+        return em(bias_sd=[1e-2, 2e-2, 1e-2], noise=[1e-3, 1e-3, 2e-3], bias_walk=None,
+                  scale_misal_sd=([[1e-3, 0, 0], [0, 1e-3, 0], [0, 1e-4, 1e-3]] if sm else None))
+
+    def fingerprint(self):
+        return snap({k: v for k, v in vars(self).items()
+                     if isinstance(v, (np.ndarray, pd.Index, list))})
+
+
+# ---------------------------------------------------------------------------------------
+# 5. schema helpers (documented columns / index only)
+def sch_table(x, cols, index=None, index_name=NA, nrows=None, what='result'):
+    pr = []
+    if not isinstance(x, pd.DataFrame):
+        return [f"{what}: expected DataFrame, got {type(x).__name__}"]
+    if cols is not None and list(x.columns) != list(cols):
+        pr.append(f"{what}: columns {list(x.columns)} != documented {list(cols)}")
+    if index is not None and not (len(x.index) == len(index) and
+                                  np.array_equal(np.asarray(x.index), np.asarray(index))):
+        pr.append(f"{what}: index differs from the documented one (len {len(x.index)} vs {len(index)})")
+    if index_name is not NA and x.index.name != index_name:
+        pr.append(f"{what}: index name {x.index.name!r} != documented {index_name!r}")
+    if nrows is not None and len(x) != nrows:
+        pr.append(f"{what}: {len(x)} rows, documented {nrows}")
+    return pr
+
+
+def sch_series(x, index, what='result'):
+    if not isinstance(x, pd.Series):
+        return [f"{what}: expected Series, got {type(x).__name__}"]
+    if list(x.index) != list(index):
+        return [f"{what}: index {list(x.index)} != documented {list(index)}"]
+    return []
+
+
+def sch_traj_imu(res, index=None, nrows=None):
+    pr = []
+    if not (isinstance(res, tuple) and len(res) >= 2):
+        return [f"expected (trajectory, imu), got {type(res).__name__}"]
+    pr += sch_table(res[0], DOC_TRAJECTORY, index, 'time', nrows, 'trajectory')
+    pr += sch_table(res[1], DOC_IMU, index, 'time', nrows, 'imu')
+    return pr
+
+
+def states_of(model_kwargs):
+    """Documented state names (bias_x.., sm_xy..) for EstimationModel constructor arguments."""
+    xyz = 'xyz'
+    def arr(v, shape):
+        return np.zeros(shape) if v is None else np.resize(np.asarray(v, dtype=float), shape) \
+            if np.ndim(v) == 0 else np.asarray(v, dtype=float)
+    b = arr(model_kwargs.get('bias_sd'), (3,))
+    s = arr(model_kwargs.get('scale_misal_sd'), (3, 3))
+    out = [f"bias_{xyz[k]}" for k in range(3) if b[k] > 0]
+    out += [f"sm_{xyz[i]}{xyz[j]}" for i in range(3) for j in range(3) if s[i, j] > 0]
+    return out
+
+
+# ---------------------------------------------------------------------------------------
+# 6. generic builder for vectorised array functions
+def vec_cases(name, fn, args, D, kinds=KINDS, single=True, stack1=True, tol=1e-12, scale=None,
+              tag='', schema=None, seeded='none', single_kinds=None):
+    """args: list of dict(label, base=(n, ...) ndarray, mode='row'|'const', cols, kinds).
+    'row' arguments are stacked (one row per point); 'const' ones are passed as they are.
+    Cases: every kind with the n-row stack (reference: ndarray), every kind with the single
+    row D.i (expected = row D.i of the reference), a 1-row stack."""
+    i = D.i
+    grp = name + tag
+    out = []
+
+    def pieces(shape):
+        for a in args:
+            base = a['base']
+            if a.get('mode', 'row') == 'row':
+                v = base if shape == 'stack' else base[i] if shape == 'single' else base[i:i + 1]
+                idx = D.tindex if shape == 'stack' else D.tindex[i:i + 1]
+            else:
+                v, idx = base, None
+            yield a, v, idx
+
+    def applicable(kind, shape):
+        for a, v, idx in pieces(shape):
+            if kind in a.get('kinds', KINDS) and conv(v, kind, a.get('cols'), idx) is not NA:
+                return True
+        return False
+
+    def mk(kind, shape):
+        def build(D_):
+            objs = {}
+            for a, v, idx in pieces(shape):
+                o = NA
+                if kind in a.get('kinds', KINDS):
+                    o = conv(v, kind, a.get('cols'), idx)
+                if o is NA:
+                    o = conv(v, 'ndarray')
+                objs[a['label']] = o
+            vals = list(objs.values())
+            return Ctx(objs, lambda: fn(*vals))
+        return build
+
+    shapes = ['stack'] + (['single'] if single else []) + (['stack1'] if stack1 else [])
+    for shape in shapes:
+        ks = kinds if shape != 'stack1' else ['ndarray', 'pandas']
+        if shape == 'single' and single_kinds is not None:
+            ks = single_kinds
+        for kind in ks:
+            if not applicable(kind, shape):
+                continue
+            expect = (None if shape == 'stack' else (lambda R: row_of(R, i)) if shape == 'single'
+                      else (lambda R: row_of(R, slice(i, i + 1))))
+            out.append(Case(name, f"{kind}/{shape}{tag}", mk(kind, shape), group=grp,
+                            expect=expect, tol=tol, scale=scale, seeded=seeded,
+                            schema=schema if (kind == 'pandas') else None))
+    return out
+
+
+def A(label, base, cols=None, mode='row', kinds=None):
+    d = dict(label=label, base=base, cols=cols, mode=mode)
+    if kinds is not None:
+        d['kinds'] = kinds
+    return d
+
+
+BUILDERS = {}
+
+
+def builder(*names):
+    def deco(f):
+        for nm in names:
+            BUILDERS[nm] = f
+        return f
+    return deco
+
+
+# ---------------------------------------------------------------------------------------
+# 7. builders: earth, util, transform, kalman
+@builder('earth.principal_radii', 'earth.gravity', 'earth.gravity_n', 'earth.curvature_matrix',
+         'earth.rate_n', 'earth.gravitation_ecef')
+def b_earth(D):
+    e = P().earth
+    out = []
+    la = [A('lat', D.lat), A('alt', D.alt)]
+    for nm in ('principal_radii', 'gravity', 'gravity_n', 'curvature_matrix'):
+        out += vec_cases('earth.' + nm, getattr(e, nm), la, D)
+    out += vec_cases('earth.rate_n', e.rate_n, [A('lat', D.lat)], D)
+    out += vec_cases('earth.gravitation_ecef', e.gravitation_ecef, [A('lla', D.lla, DOC_LLA)], D)
+    return out
+
+
+@builder('util.mm_prod', 'util.mm_prod_symmetric', 'util.mv_prod', 'util.skew_matrix',
+         'util.compute_rms', 'util.to_180_range')
+def b_util(D):
+    u = P().util
+    out = []
+    for (ma, mb) in (('row', 'row'), ('row', 'const'), ('const', 'row')):
+        for at, bt in ((False, False), (True, False), (False, True), (True, True)):
+            if (ma, mb) != ('row', 'row') and at != bt:
+                continue
+            a = A('a', D.mats if ma == 'row' else D.mats[0], mode=ma)
+            b = A('b', D.mats2 if mb == 'row' else D.mats2[1], mode=mb)
+            out += vec_cases('util.mm_prod', (lambda x, y, at=at, bt=bt: u.mm_prod(x, y, at, bt)),
+                             [a, b], D, tag=f"|{ma[0]}{mb[0]}|at={int(at)},bt={int(bt)}",
+                             single=(ma, mb) == ('row', 'row'), stack1=False)
+    sym = np.einsum('nij,nkj->nik', D.mats2, D.mats2)
+    for (ma, mb) in (('row', 'row'), ('row', 'const'), ('const', 'row')):
+        out += vec_cases('util.mm_prod_symmetric', u.mm_prod_symmetric,
+                         [A('a', D.mats if ma == 'row' else D.mats[0], mode=ma),
+                          A('b', sym if mb == 'row' else sym[1], mode=mb)], D,
+                         tag=f"|{ma[0]}{mb[0]}", single=(ma, mb) == ('row', 'row'), stack1=False)
+    nd = ['ndarray', 'fortran', 'strided']          # `b : ndarray` in the docstring
+    for ma in ('row', 'const'):
+        for at in (False, True):
+            out += vec_cases('util.mv_prod', (lambda x, y, at=at: u.mv_prod(x, y, at)),
+                             [A('a', D.mats if ma == 'row' else D.mats[0], mode=ma),
+                              A('b', D.vec, kinds=nd)], D, tag=f"|{ma[0]}|at={int(at)}",
+                             single=(ma == 'row'), stack1=False)
+    out += vec_cases('util.skew_matrix', u.skew_matrix, [A('vec', D.vec, DOC_VEL)], D)
+    out += vec_cases('util.compute_rms', u.compute_rms, [A('data', D.vec, DOC_VEL)], D,
+                     single=False, stack1=False)
+    out += vec_cases('util.compute_rms', u.compute_rms, [A('data', D.vec[:, 0])], D,
+                     single=False, stack1=False, tag='|1d')
+    out += vec_cases('util.to_180_range', u.to_180_range, [A('angle', D.angles)], D)
+    out += vec_cases('util.to_180_range', u.to_180_range, [A('angle', D.angles3, DOC_RPH)], D,
+                     tag='|2d')
+    return out
+
+
+@builder('transform.lla_to_ecef', 'transform.perturb_lla', 'transform.compute_lla_difference',
+         'transform.mat_en_from_ll', 'transform.mat_from_rph', 'transform.mat_to_rph',
+         'transform.ecef_to_lla')
+def b_transform_vec(D):
+    t = P().transform
+    out = []
+    out += vec_cases('transform.lla_to_ecef', t.lla_to_ecef, [A('lla', D.lla, DOC_LLA)], D,
+                     scale=R_EARTH)
+    out += vec_cases('transform.perturb_lla', t.perturb_lla,
+                     [A('lla', D.lla, DOC_LLA), A('dr_n', D.dr, DOC_NED)], D)
+    out += vec_cases('transform.compute_lla_difference', t.compute_lla_difference,
+                     [A('lla1', D.lla2, DOC_LLA), A('lla2', D.lla, DOC_LLA)], D, scale=1.0)
+    out += vec_cases('transform.compute_lla_difference', t.compute_lla_difference,
+                     [A('lla1', D.lla + [1e-4, -1e-4, 3.0], DOC_LLA),
+                      A('lla2', D.lla[D.i], DOC_LLA, mode='const')], D, scale=1.0,
+                     single=False, stack1=False, tag='|stack-vs-point')
+    out += vec_cases('transform.mat_en_from_ll', t.mat_en_from_ll,
+                     [A('lat', D.lat), A('lon', D.lon)], D)
+    out += vec_cases('transform.mat_from_rph', t.mat_from_rph, [A('rph', D.rph, DOC_RPH)], D)
+    rot = t.mat_from_rph(D.rph.copy())
+    out += vec_cases('transform.mat_to_rph', t.mat_to_rph, [A('mat', rot)], D, tol=1e-9)
+    ecef = t.lla_to_ecef(D.lla.copy())
+    out += vec_cases('transform.ecef_to_lla', t.ecef_to_lla,
+                     [A('r_e', ecef, kinds=['ndarray', 'fortran', 'strided'])], D, tol=1e-9)
+    return out
+
+
+@builder('transform.lla_to_ned')
+def b_lla_to_ned(D):
+    t = P().transform
+    nm = 'transform.lla_to_ned'
+    base = D.lla[:1] + np.column_stack([np.cumsum(D.rs.uniform(-1e-3, 1e-3, (D.n, 2)), axis=0),
+                                        D.rs.uniform(-30, 30, D.n)])
+    origin = base[0] + [1e-4, -2e-4, 5.0]
+    i = D.i
+    out = []
+
+    def sch(res, ctx):
+        return sch_table(res, DOC_NED, ctx.watch['lla'].index, NA, None)
+
+    for kind in KINDS:
+        def build(D_, kind=kind):
+            lla = conv(base, kind, DOC_LLA, D.tindex)
+            return Ctx(dict(lla=lla), lambda: t.lla_to_ned(lla))
+        out.append(Case(nm, f"{kind}/stack|origin=None", build, group=nm + '|none',
+                        scale=R_EARTH, schema=sch if kind == 'pandas' else None))
+    for okind in ('ndarray', 'strided', 'list', 'tuple'):
+        for kind in (('ndarray', 'pandas', 'list') if okind == 'ndarray' else ('ndarray',)):
+            def build(D_, kind=kind, okind=okind):
+                lla = conv(base, kind, DOC_LLA, D.tindex)
+                o = conv(origin, okind)
+                return Ctx(dict(lla=lla, lla_origin=o), lambda: t.lla_to_ned(lla, o))
+            out.append(Case(nm, f"{kind}/stack|origin={okind}", build, group=nm + '|given',
+                            scale=R_EARTH, schema=sch if kind == 'pandas' else None))
+    for kind in ('ndarray', 'pandas'):
+        def build(D_, kind=kind):
+            lla = conv(base[i:i + 1], kind, DOC_LLA, D.tindex[i:i + 1])
+            o = conv(origin, 'ndarray')
+            return Ctx(dict(lla=lla, lla_origin=o), lambda: t.lla_to_ned(lla, o))
+        out.append(Case(nm, f"{kind}/stack1|origin=ndarray", build, group=nm + '|given',
+                        expect=lambda R: row_of(R, slice(i, i + 1)), scale=R_EARTH,
+                        schema=sch if kind == 'pandas' else None))
+    return out
+
+
+@builder('transform.translate_trajectory')
+def b_translate(D):
+    t = P().transform
+    nm = 'transform.translate_trajectory'
+    lever = np.array([1.5, -0.7, 0.4])
+    k = 3 + D.i
+    out = []
+
+    def sch(res, ctx):
+        tr = ctx.watch['trajectory']
+        if isinstance(tr, pd.Series):
+            return sch_series(res, tr.index)
+        return sch_table(res, list(tr.columns), tr.index)
+
+    for rate in (False, True):
+        grp = f"{nm}|rate={int(rate)}"
+        src = (lambda: D.traj_rate()) if rate else (lambda: D.traj_att())
+        for lk in ('ndarray', 'strided', 'list', 'tuple'):
+            def build(D_, lk=lk, src=src):
+                tr, lv = src().iloc[:40], conv(lever, lk)
+                return Ctx(dict(trajectory=tr, translation_b=lv),
+                           lambda: t.translate_trajectory(tr, lv))
+            out.append(Case(nm, f"DataFrame,{lk}|rate={int(rate)}", build, group=grp, schema=sch))
+        for own in (False, True):
+            for lk in ('ndarray', 'list'):
+                def build(D_, lk=lk, own=own, rate=rate):
+                    pva, lv = D.pva(k, rate=rate, own=own), conv(lever, lk)
+                    return Ctx(dict(trajectory=pva, translation_b=lv),
+                               lambda: t.translate_trajectory(pva, lv))
+                out.append(Case(nm, f"Series({'own' if own else 'row'}),{lk}|rate={int(rate)}",
+                                build, group=grp, expect=lambda R: R.iloc[k], schema=sch))
+    return out
+
+
+@builder('transform.resample_state')
+def b_resample(D):
+    t = P().transform
+    nm = 'transform.resample_state'
+    tr0 = D.traj_att()
+    t0, t1 = tr0.index[0], tr0.index[-1]
+    times = np.concatenate([D.rs.uniform(t0, t1, 12), [t0, t1, t1 + 1.0, t0 - 0.5],
+                            tr0.index[5:8].to_numpy()])
+    D.rs.shuffle(times)
+    want = np.sort(times)
+    want = want[(want >= t0) & (want <= t1)]
+    out = []
+    for sub, cols in (('full', None), ('norph', DOC_LLA + DOC_VEL), ('rate', 'rate')):
+        def sch(res, ctx):
+            st = ctx.watch['state']
+            return sch_table(res, list(st.columns), want)
+        for kind in ('ndarray', 'strided', 'list', 'tuple', 'pandas', 'index'):
+            def build(D_, kind=kind, cols=cols):
+                st = D.traj_rate() if cols == 'rate' else D.traj_att() if cols is None \
+                    else D.traj_att()[cols]
+                tm = pd.Index(times.copy()) if kind == 'index' else conv(times, kind)
+                return Ctx(dict(state=st, times=tm), lambda: t.resample_state(st, tm))
+            out.append(Case(nm, f"DataFrame({sub}),times={kind}", build, group=f"{nm}|{sub}",
+                            schema=sch))
+    return out
+
+
+@builder('transform.compute_state_difference')
+def b_state_diff(D):
+    t = P().transform
+    nm = 'transform.compute_state_difference'
+    out = []
+    k = 3 + D.i
+
+    def sch_full(res, ctx):
+        first, second = ctx.watch['first'], ctx.watch['second']
+        if isinstance(first, pd.Series):
+            return sch_series(res, DOC_TRAJECTORY_ERROR)
+        a, b = first.index, second.index
+        common = a if len(a) <= len(b) else b
+        return sch_table(res, DOC_TRAJECTORY_ERROR, common)
+
+    def pair(kind):
+        comp, true = D.computed(True), D.traj()
+        if kind == 'same':
+            return comp, true
+        if kind == 'sparse2':
+            return comp, true.iloc[::D.mstep]
+        if kind == 'sparse1':
+            return comp.iloc[::D.mstep], true
+        raise KeyError(kind)
+
+    for kind in ('same', 'sparse2', 'sparse1'):
+        def build(D_, kind=kind):
+            a, b = pair(kind)
+            return Ctx(dict(first=a, second=b), lambda: t.compute_state_difference(a, b))
+        out.append(Case(nm, f"DataFrame,DataFrame|{kind}", build, group=f"{nm}|{kind}",
+                        schema=sch_full, scale=R_EARTH))
+    # the same tables held in Fortran-ordered blocks
+    def build_f(D_):
+        a, b = pair('same')
+        a = pd.DataFrame(np.asfortranarray(a.to_numpy()), index=a.index, columns=a.columns)
+        b = pd.DataFrame(np.asfortranarray(b.to_numpy()), index=b.index, columns=b.columns)
+        return Ctx(dict(first=a, second=b), lambda: t.compute_state_difference(a, b))
+    out.append(Case(nm, "DataFrame(F),DataFrame(F)|same", build_f, group=f"{nm}|same",
+                    schema=sch_full, scale=R_EARTH))
+    # Series vs row of the table result (angles via Slerp in the table path: 1e-9)
+    def build_s(D_):
+        a, b = pair('same')
+        a, b = a.iloc[k], b.iloc[k]
+        return Ctx(dict(first=a, second=b), lambda: t.compute_state_difference(a, b))
+    out.append(Case(nm, "Series,Series|same", build_s, group=f"{nm}|same",
+                    expect=lambda R: R.iloc[k], schema=sch_full, scale=R_EARTH))
+    # partial column sets
+    for cols, doc in ((DOC_LLA, DOC_NED), (DOC_VEL, DOC_VEL), (DOC_LLA + DOC_RPH, DOC_NED + DOC_RPH)):
+        def build(D_, cols=cols):
+            a, b = pair('same')
+            a, b = a[cols], b[cols]
+            return Ctx(dict(first=a, second=b), lambda: t.compute_state_difference(a, b))
+        out.append(Case(nm, f"DataFrame,DataFrame|cols={'+'.join(cols)}", build,
+                        schema=lambda res, ctx, doc=doc: sch_table(res, doc, ctx.watch['first'].index)))
+    return out
+
+
+@builder('transform.smooth_rotations', 'transform.smooth_state')
+def b_smooth(D):
+    t = P().transform
+    from scipy.spatial.transform import Rotation
+    out = []
+
+    def build_r(D_):
+        rph = D.traj_att()[DOC_RPH].to_numpy()[:120]
+        rot = Rotation.from_euler('xyz', rph, True)
+        return Ctx(dict(rotations=rot, rph=rph),
+                   lambda: t.smooth_rotations(rot, D.dt, 5 * D.dt))
+    out.append(Case('transform.smooth_rotations', 'Rotation', build_r))
+    for sub in ('full', 'norph'):
+        def build(D_, sub=sub):
+            st = D.traj_att() if sub == 'full' else D.traj_att()[DOC_LLA + DOC_VEL]
+            return Ctx(dict(state=st), lambda: t.smooth_state(st, 6 * D.dt))
+        out.append(Case('transform.smooth_state', f"DataFrame({sub})", build,
+                        schema=lambda res, ctx: sch_table(res, list(ctx.watch['state'].columns))))
+    return out
+
+
+@builder('kalman.compute_process_matrices', 'kalman.correct')
+def b_kalman(D):
+    k = P().kalman
+    rs = np.random.RandomState(D.seed + 1950 + D.rnd)
+    n, m = 6, 3
+    F = rs.normal(0, 0.3, (n, n))
+    G = rs.normal(0, 0.1, (n, n))
+    Q = G @ G.T
+    L = rs.normal(0, 1, (n, n))
+    Pm = L @ L.T + np.eye(n)
+    x = rs.normal(0, 1, n)
+    H = rs.normal(0, 1, (m, n))
+    z = rs.normal(0, 1, m)
+    Rm = np.diag(rs.uniform(0.5, 2, m))
+    out = []
+    nd = ['ndarray', 'fortran', 'strided']
+    for kind in nd:
+        for dtk in ('float', 'np.float64'):
+            def build(D_, kind=kind, dtk=dtk):
+                f, q = conv(F, kind), conv(Q, kind)
+                dt = 0.37 if dtk == 'float' else np.float64(0.37)
+                return Ctx(dict(F=f, Q=q, dt=dt), lambda: k.compute_process_matrices(f, q, dt))
+            out.append(Case('kalman.compute_process_matrices', f"{kind},dt={dtk}", build,
+                            group='kalman.compute_process_matrices'))
+    for kind in nd:
+        def build(D_, kind=kind):
+            a = dict(x=conv(x, kind if kind != 'fortran' else 'ndarray'), P=conv(Pm, kind),
+                     z=conv(z, kind if kind != 'fortran' else 'ndarray'), H=conv(H, kind),
+                     R=conv(Rm, kind))
+            return Ctx(a, lambda: k.correct(a['x'], a['P'], a['z'], a['H'], a['R']))
+        out.append(Case('kalman.correct', kind, build, group='kalman.correct'))
+    return out
+
+
+# ---------------------------------------------------------------------------------------
+# 8. builders: error_model, inertial_sensor, measurements
+def _frame_forms(df):
+    """The same table in C-ordered and Fortran-ordered blocks."""
+    yield 'DataFrame', df
+    yield 'DataFrame(F)', pd.DataFrame(np.asfortranarray(df.to_numpy()), index=df.index,
+                                       columns=df.columns)
+
+
+@builder('error_model.InsErrorModel.__init__', 'error_model.InsErrorModel.n_states',
+         'error_model.InsErrorModel.system_matrices', 'error_model.InsErrorModel.transform_to_output',
+         'error_model.InsErrorModel.transform_to_internal', 'error_model.InsErrorModel.correct_pva',
+         'error_model.InsErrorModel.position_error_jacobian',
+         'error_model.InsErrorModel.ned_velocity_error_jacobian',
+         'error_model.InsErrorModel.body_velocity_error_jacobian')
+def b_ins_error_model(D):
+    EM = P().error_model.InsErrorModel
+    pre = 'error_model.InsErrorModel.'
+    k = 3 + D.i
+    lever = np.array([0.8, -1.2, 0.5])
+    out = []
+    for wa in (True, False):
+        w = f"|alt={int(wa)}"
+        out.append(Case(pre + '__init__', f"with_altitude={wa}",
+                        lambda D_, wa=wa: Ctx({}, lambda: EM(wa)),
+                        schema=lambda res, ctx, wa=wa: [] if res.states == (DOC_STATES_3D if wa else DOC_STATES_2D)
+                        else [f"states {res.states}"]))
+
+        def build_n(D_, wa=wa):
+            m = EM(wa)
+            return Ctx({}, lambda: m.n_states, recv=lambda: m)
+        out.append(Case(pre + 'n_states', f"property{w}", build_n,
+                        schema=lambda res, ctx, wa=wa: [] if res == (9 if wa else 7) else [f"n_states={res}"]))
+        # trajectory-or-pva methods
+        for meth in ('system_matrices', 'transform_to_output'):
+            grp = pre + meth + w
+            for rate in (False, True):
+                for fname in ('DataFrame', 'DataFrame(F)'):
+                    def build(D_, meth=meth, rate=rate, fname=fname, wa=wa):
+                        tr = (D.traj_rate() if rate else D.traj_att()).iloc[:30]
+                        tr = dict(_frame_forms(tr))[fname]
+                        m = EM(wa)
+                        return Ctx(dict(trajectory=tr), lambda: getattr(m, meth)(tr), recv=lambda: m)
+                    out.append(Case(pre + meth, f"{fname}{'+rate' if rate else ''}{w}", build, group=grp))
+            for own in (False, True):
+                for rate in (False, True):
+                    def build(D_, meth=meth, own=own, rate=rate, wa=wa):
+                        pva = D.pva(k, rate=rate, own=own)
+                        m = EM(wa)
+                        return Ctx(dict(trajectory=pva), lambda: getattr(m, meth)(pva), recv=lambda: m)
+                    out.append(Case(pre + meth, f"Series({'own' if own else 'row'}){'+rate' if rate else ''}{w}",
+                                    build, group=grp, expect=lambda R: row_of(R, k)))
+        # pva-only methods
+        def pva_cases(meth, extra_forms, call, wa=wa, w=w):
+            grp = pre + meth + w
+            for own in (False, True):
+                for rate in (False, True):
+                    for ef in extra_forms:
+                        def build(D_, own=own, rate=rate, ef=ef, wa=wa):
+                            pva = D.pva(k, rate=rate, own=own)
+                            m = EM(wa)
+                            watch, fn = call(m, pva, ef)
+                            watch = dict(watch, pva=pva)
+                            return Ctx(watch, fn, recv=lambda: m)
+                        out.append(Case(pre + meth,
+                                        f"Series({'own' if own else 'row'}){'+rate' if rate else ''},{ef}{w}",
+                                        build, group=grp + f"|rate={int(rate)}|{ef.split(':')[0]}"))
+        pva_cases('transform_to_internal', ['-'], lambda m, pva, ef: ({}, lambda: m.transform_to_internal(pva)))
+        pva_cases('body_velocity_error_jacobian', ['-'],
+                  lambda m, pva, ef: ({}, lambda: m.body_velocity_error_jacobian(pva)))
+
+        def lever_call(meth):
+            def call(m, pva, ef):
+                lv = None if ef == 'none:None' else conv(lever, ef.split(':')[1])
+                return dict(imu_to_antenna_b=lv), lambda: getattr(m, meth)(pva, lv)
+            return call
+        lev_forms = ['none:None', 'lever:ndarray', 'lever:strided', 'lever:list', 'lever:tuple']
+        pva_cases('position_error_jacobian', lev_forms, lever_call('position_error_jacobian'))
+        pva_cases('ned_velocity_error_jacobian', lev_forms, lever_call('ned_velocity_error_jacobian'))
+        # correct_pva (pva with exactly the nine Pva elements; x : ndarray)
+        xs = np.concatenate([D.rs.normal(0, 2, 3), D.rs.normal(0, 0.2, 3), D.rs.normal(0, 2e-3, 3)])
+        xs = xs if wa else xs[[0, 1, 3, 4, 6, 7, 8]]
+        for own in (False, True):
+            for xk in ('ndarray', 'strided'):
+                def build(D_, own=own, xk=xk, xs=xs, wa=wa):
+                    pva, x, m = D.pva(k, own=own), conv(xs, xk), EM(wa)
+                    return Ctx(dict(pva=pva, x=x), lambda: m.correct_pva(pva, x), recv=lambda: m)
+                out.append(Case(pre + 'correct_pva', f"Series({'own' if own else 'row'}),x={xk}{w}", build,
+                                group=pre + 'correct_pva' + w,
+                                schema=lambda res, ctx: sch_series(res, DOC_TRAJECTORY)))
+    return out
+
+
+@builder('error_model.propagate_errors')
+def b_propagate(D):
+    em = P().error_model
+    nm = 'error_model.propagate_errors'
+    ge, ae = np.array([2e-6, -1e-6, 3e-6]), np.array([2e-3, 1e-3, -3e-3])
+    out = []
+
+    def sch(wa):
+        def f(res, ctx):
+            tr = ctx.watch['trajectory']
+            if not (isinstance(res, tuple) and len(res) == 2):
+                return [f"expected (trajectory_error, model_error), got {type(res).__name__}"]
+            return (sch_table(res[0], DOC_TRAJECTORY_ERROR, tr.index, NA, None, 'trajectory_error') +
+                    sch_table(res[1], DOC_STATES_3D if wa else DOC_STATES_2D, tr.index, NA, None,
+                              'model_error'))
+        return f
+
+    for wa in (True, False):
+        w = f"|alt={int(wa)}"
+        def build0(D_, wa=wa):
+            tr = D.traj_att().iloc[:80]
+            return Ctx(dict(trajectory=tr), lambda: em.propagate_errors(tr, with_altitude=wa))
+        out.append(Case(nm, f"defaults{w}", build0, schema=sch(wa)))
+        for kind in ('ndarray', 'strided', 'list', 'tuple', 'pandas', 'stacked-ndarray',
+                     'stacked-fortran', 'stacked-DataFrame'):
+            def build(D_, kind=kind, wa=wa):
+                tr = D.traj_att().iloc[:80]
+                pe = D.pva_error()
+                if kind.startswith('stacked'):
+                    g, a = np.tile(ge, (len(tr), 1)), np.tile(ae, (len(tr), 1))
+                    if kind == 'stacked-fortran':
+                        g, a = np.asfortranarray(g), np.asfortranarray(a)
+                    if kind == 'stacked-DataFrame':
+                        g, a = pd.DataFrame(g, index=tr.index), pd.DataFrame(a, index=tr.index)
+                else:
+                    g, a = conv(ge, kind), conv(ae, kind)
+                return Ctx(dict(trajectory=tr, pva_error=pe, gyro_error=g, accel_error=a),
+                           lambda: em.propagate_errors(tr, pe, g, a, wa))
+            out.append(Case(nm, f"errors={kind}{w}", build, group=nm + w, schema=sch(wa)))
+    return out
+
+
+def _est_kwargs():
+    """Constructor argument sets for EstimationModel: (tag, kwargs as plain numbers)."""
+    return [
+        ('none', dict()),
+        ('bias+noise', dict(bias_sd=0.01, noise=0.001)),
+        ('full', dict(bias_sd=[1e-2, 2e-2, 3e-2], noise=[1e-3, 2e-3, 1e-3], bias_walk=[1e-5, 0.0, 2e-5],
+                      scale_misal_sd=[[1e-3, 2e-4, 0.0], [0.0, 1e-3, 3e-4], [1e-4, 0.0, 1e-3]])),
+        ('partial', dict(bias_sd=[1e-2, 0.0, 3e-2], noise=[0.0, 2e-3, 1e-3],
+                         scale_misal_sd=[[0.0, 0.0, 0.0], [0.0, 1e-3, 0.0], [0.0, 0.0, 1e-3]])),
+    ]
+
+
+def _est_args(kw, kind):
+    """kwargs in a given form: scalars stay python floats for 'list' and become arrays of three
+    equal numbers for the array kinds (documented: float = same for each sensor)."""
+    out = {}
+    for k, v in kw.items():
+        if np.ndim(v) == 0:
+            out[k] = float(v) if kind in ('list', 'tuple') else np.float64(v) if kind == 'strided' \
+                else np.resize(np.float64(v), (3, 3) if k == 'scale_misal_sd' else (3,))
+        else:
+            o = conv(np.asarray(v, dtype=float), kind)
+            out[k] = conv(np.asarray(v, dtype=float), 'ndarray') if o is NA else o
+    return out
+
+
+@builder('inertial_sensor.EstimationModel.__init__', 'inertial_sensor.EstimationModel.output_matrix',
+         'inertial_sensor.EstimationModel.reset_estimates', 'inertial_sensor.EstimationModel.update_estimates',
+         'inertial_sensor.EstimationModel.correct_increments', 'inertial_sensor.EstimationModel.get_estimates')
+def b_estimation_model(D):
+    EM = P().inertial_sensor.EstimationModel
+    pre = 'inertial_sensor.EstimationModel.'
+    out = []
+    i = D.i
+    readings = D.vec
+    for tag, kw in _est_kwargs():
+        states = states_of(kw)
+        sch_states = (lambda res, ctx, states=states: [] if res.states == states
+                      else [f"states {res.states} != documented {states}"])
+        for kind in ('ndarray', 'fortran', 'strided', 'list', 'tuple'):
+            if not kw and kind != 'ndarray':
+                continue
+            def build(D_, kw=kw, kind=kind):
+                a = _est_args(kw, kind)
+                return Ctx(a, lambda: EM(**a))
+            out.append(Case(pre + '__init__', f"{tag}:{kind}", build, group=pre + '__init__|' + tag,
+                            schema=sch_states))
+
+        def fresh(kind='ndarray', kw=kw):
+            a = _est_args(kw, kind)
+            return a, EM(**a)
+
+        def polluted(m, seed=7):
+            x = np.random.RandomState(D.seed + seed).normal(0, 1e-3, m.n_states)
+            m.update_estimates(x)
+            return m
+        # output_matrix
+        rk = ['ndarray', 'fortran', 'strided', 'list', 'tuple', 'pandas']
+        if states and any(s.startswith('sm_') for s in states):
+            def fn_out(r, kw=kw):
+                a, m = fresh(kw=kw)
+                return m.output_matrix(r)
+            out += vec_cases(pre + 'output_matrix', fn_out, [A('readings', readings, DOC_GYRO)], D,
+                             kinds=rk, tag='|' + tag)
+        else:
+            def build(D_, kw=kw):
+                a, m = fresh(kw=kw)
+                return Ctx(a, lambda: m.output_matrix(), recv=lambda: m)
+            out.append(Case(pre + 'output_matrix', f"readings=None|{tag}", build))
+        if not states:
+            continue
+        # update_estimates / reset_estimates / get_estimates
+        xs = np.random.RandomState(D.seed + 3).normal(0, 1e-3, len(states))
+        for xk in ('ndarray', 'strided', 'list', 'tuple', 'pandas'):
+            def build(D_, xk=xk, kw=kw, xs=xs, states=states):
+                a, m = fresh('list', kw)
+                x = pd.Series(xs.copy(), index=states) if xk == 'pandas' else conv(xs, xk)
+                return Ctx(dict(a, x=x), lambda: m.update_estimates(x), recv=lambda: m)
+            out.append(Case(pre + 'update_estimates', f"x={xk}|{tag}", build,
+                            group=pre + 'update_estimates|' + tag))
+
+        def build_reset(D_, kw=kw):
+            a, m = fresh('ndarray', kw)
+            polluted(m)
+            return Ctx(a, lambda: m.reset_estimates(), recv=lambda: m)
+        out.append(Case(pre + 'reset_estimates', tag, build_reset))
+
+        def build_get(D_, kw=kw):
+            a, m = fresh('ndarray', kw)
+            polluted(m)
+            return Ctx(a, lambda: m.get_estimates(), recv=lambda: m)
+        out.append(Case(pre + 'get_estimates', tag, build_get,
+                        schema=lambda res, ctx, states=states: sch_series(res, states)))
+        # correct_increments: table (dt in several forms) and single row
+        grp = pre + 'correct_increments|' + tag
+        for cols in (DOC_THETA, DOC_DV):
+            for dk in ('Series', 'ndarray', 'list'):
+                if cols is DOC_DV and dk != 'Series':
+                    continue
+                def build(D_, cols=cols, dk=dk, kw=kw):
+                    a, m = fresh('ndarray', kw)
+                    polluted(m)
+                    inc = D.inc().iloc[:50]
+                    dt = inc['dt'] if dk == 'Series' else inc['dt'].to_numpy().copy() if dk == 'ndarray' \
+                        else inc['dt'].tolist()
+                    tab = inc[cols]
+                    return Ctx(dict(a, dt=dt, increments=tab), lambda: m.correct_increments(dt, tab),
+                               recv=lambda: m)
+                out.append(Case(pre + 'correct_increments', f"DataFrame({cols[0][:-2]}),dt={dk}|{tag}", build,
+                                group=grp + cols[0],
+                                schema=lambda res, ctx: sch_table(res, list(ctx.watch['increments'].columns),
+                                                                  ctx.watch['increments'].index)))
+            def build_s(D_, cols=cols, kw=kw):
+                a, m = fresh('ndarray', kw)
+                polluted(m)
+                row = D.inc().iloc[3 + i]
+                dt, ser = float(row['dt']), row[cols]
+                return Ctx(dict(a, dt=dt, increments=ser), lambda: m.correct_increments(dt, ser),
+                           recv=lambda: m)
+            out.append(Case(pre + 'correct_increments', f"Series({cols[0][:-2]}),dt=float|{tag}", build_s,
+                            group=grp + cols[0], expect=lambda R: R.iloc[3 + i],
+                            schema=lambda res, ctx: sch_series(res, list(ctx.watch['increments'].index))))
+    return out
+
+
+def _par_states(transform, bias, bias_walk):
+    xyz = 'xyz'
+    bw = np.resize(np.asarray(0.0 if bias_walk is None else bias_walk, dtype=float), 3)
+    b = np.zeros(3) if bias is None else np.asarray(bias, dtype=float)
+    T = np.eye(3) if transform is None else np.asarray(transform, dtype=float)
+    out = [f"bias_{xyz[k]}" for k in range(3) if b[k] != 0 or bw[k] != 0]
+    out += [f"sm_{xyz[i]}{xyz[j]}" for i in range(3) for j in range(3) if T[i, j] != (1 if i == j else 0)]
+    return out
+
+
+@builder('inertial_sensor.Parameters.__init__', 'inertial_sensor.Parameters.from_EstimationModel',
+         'inertial_sensor.Parameters.apply', 'inertial_sensor.apply_imu_parameters')
+def b_parameters(D):
+    isn = P().inertial_sensor
+    PA = isn.Parameters
+    pre = 'inertial_sensor.Parameters.'
+    T = np.array([[1.001, 2e-4, 0.0], [0.0, 0.999, -3e-4], [1e-4, 0.0, 1.0]])
+    b = np.array([1e-3, -2e-3, 0.0])
+    noise = np.array([1e-4, 2e-4, 1e-4])
+    walk = np.array([1e-5, 0.0, 0.0])
+    seed = D.seed + 61
+    out = []
+
+    def pargs(kind, scalar_noise=False):
+        c = (lambda v: conv(v, kind) if conv(v, kind) is not NA else conv(v, 'ndarray'))
+        return dict(transform=c(T), bias=c(b), noise=(1e-4 if scalar_noise else c(noise)), bias_walk=c(walk))
+
+    for kind in ('ndarray', 'fortran', 'strided', 'list', 'tuple'):
+        def build(D_, kind=kind):
+            a = pargs(kind)
+            return Ctx(a, lambda: PA(rng=seed, **a))
+        out.append(Case(pre + '__init__', kind, build, group=pre + '__init__', seeded='int'))
+    out.append(Case(pre + '__init__', 'defaults,rng=int', lambda D_: Ctx({}, lambda: PA(rng=seed)), seeded='int'))
+    out.append(Case(pre + '__init__', 'defaults,rng=None', lambda D_: Ctx({}, lambda: PA().bias),
+                    seeded='none'))                   # construction alone must not draw numbers
+    # apply
+    for st in ('rate', 'increment'):
+        for cols in (DOC_GYRO, DOC_ACCEL):
+            for kind, fname in (('ndarray', 'DataFrame'), ('list', 'DataFrame'), ('ndarray', 'DataFrame(F)')):
+                def build(D_, st=st, cols=cols, kind=kind, fname=fname):
+                    a = pargs(kind)
+                    p = PA(rng=seed, **a)
+                    rd = dict(_frame_forms(D.imu(st)[cols]))[fname]
+                    return Ctx(dict(a, readings=rd), lambda: p.apply(rd, st), recv=lambda: p)
+
+                def sch(res, ctx):
+                    rd = ctx.watch['readings']
+                    pr = sch_table(res, list(rd.columns), rd.index)
+                    df = ctx.recv().data_frame
+                    pr += sch_table(df, _par_states(T, b, walk), rd.index, NA, None, 'data_frame')
+                    return pr
+                out.append(Case(pre + 'apply', f"{fname}({cols[0][:-2]}),{st},params={kind}", build,
+                                group=f"{pre}apply|{st}|{cols[0]}", schema=sch, seeded='int'))
+
+    def build_glob(D_):
+        p = PA(bias=b.copy(), noise=noise.copy(), bias_walk=walk.copy())
+        rd = D.imu('rate')[DOC_GYRO]
+        return Ctx(dict(readings=rd), lambda: p.apply(rd, 'rate'), recv=lambda: p)
+    out.append(Case(pre + 'apply', 'DataFrame,rng=None (documented global generator)', build_glob,
+                    seeded='global', repeat=False))
+    # from_EstimationModel
+    for tag, kw in _est_kwargs()[1:]:
+        def build(D_, kw=kw):
+            m = isn.EstimationModel(**_est_args(kw, 'list'))
+            return Ctx(dict(model=m), lambda: PA.from_EstimationModel(m, rng=seed))
+        out.append(Case(pre + 'from_EstimationModel', f"{tag},rng=int", build, seeded='int'))
+
+        def build2(D_, kw=kw):
+            m = isn.EstimationModel(**_est_args(kw, 'list'))
+            rd = D.imu('rate')[DOC_GYRO]
+
+            def call():
+                p = PA.from_EstimationModel(m, rng=seed)
+                return p.apply(rd, 'rate'), p.data_frame
+            return Ctx(dict(model=m, readings=rd), call)
+        out.append(Case(pre + 'from_EstimationModel', f"{tag},rng=int,then apply", build2, seeded='int'))
+
+    def build3(D_):
+        m = isn.EstimationModel(**_est_args(_est_kwargs()[2][1], 'list'))
+        return Ctx(dict(model=m), lambda: PA.from_EstimationModel(m).bias)
+    out.append(Case(pre + 'from_EstimationModel', 'full,rng=None (documented global generator)', build3,
+                    seeded='global', repeat=False))
+    # apply_imu_parameters
+    nm = 'inertial_sensor.apply_imu_parameters'
+    for st in ('rate', 'increment'):
+        for fname in ('DataFrame', 'DataFrame(F)'):
+            def build(D_, st=st, fname=fname):
+                gp = PA(rng=seed, **pargs('ndarray'))
+                ap = PA(rng=seed + 1, **pargs('list', True))
+                imu = dict(_frame_forms(D.imu(st)))[fname]
+                return Ctx(dict(imu=imu, gyro_parameters=gp, accel_parameters=ap),
+                           lambda: isn.apply_imu_parameters(imu, st, gp, ap),
+                           exempt=('gyro_parameters.data_frame', 'accel_parameters.data_frame'),
+                           recv=lambda: (gp, ap))
+            out.append(Case(nm, f"{fname},{st},Parameters(rng=int)", build, group=f"{nm}|{st}", seeded='int',
+                            schema=lambda res, ctx: sch_table(res, DOC_IMU, ctx.watch['imu'].index)))
+
+    def build_d(D_):
+        imu = D.imu('rate')
+        return Ctx(dict(imu=imu), lambda: isn.apply_imu_parameters(imu, 'rate'))
+    out.append(Case(nm, 'DataFrame,rate,default parameters (documented global generator)', build_d,
+                    seeded='global', repeat=False,
+                    schema=lambda res, ctx: sch_table(res, DOC_IMU, ctx.watch['imu'].index)))
+    return out
+
+
+@builder('measurements.Measurement.__init__', 'measurements.Measurement.compute_matrices',
+         'measurements.Position.__init__', 'measurements.Position.compute_matrices',
+         'measurements.NedVelocity.__init__', 'measurements.NedVelocity.compute_matrices',
+         'measurements.BodyVelocity.__init__', 'measurements.BodyVelocity.compute_matrices')
+def b_measurements(D):
+    ms = P().measurements
+    EM = P().error_model.InsErrorModel
+    lever = np.array([0.9, -0.4, 1.1])
+    out = []
+
+    def data_of(cls):
+        return D.meas(dict(Position='pos', NedVelocity='vel', BodyVelocity='body', Measurement='pos')[cls])
+
+    def cols_of(cls):
+        return dict(Position=DOC_LLA, NedVelocity=DOC_VEL, BodyVelocity=DOC_BODY_VEL, Measurement=DOC_LLA)[cls]
+
+    def make(cls, data, lk):
+        C = getattr(ms, cls)
+        if cls == 'Measurement':
+            return {}, C(data)
+        if cls == 'BodyVelocity':
+            return {}, C(data, 0.2)
+        lv = None if lk == 'None' else conv(lever, lk)
+        return dict(imu_to_antenna_b=lv), C(data, 1.5, lv)
+
+    for cls in ('Measurement', 'Position', 'NedVelocity', 'BodyVelocity'):
+        pre = f"measurements.{cls}."
+        lks = ['-'] if cls in ('Measurement', 'BodyVelocity') else ['None', 'ndarray', 'strided', 'list', 'tuple']
+        for lk in lks:
+            for extra_cols in (False, True):
+                def build(D_, cls=cls, lk=lk, extra_cols=extra_cols):
+                    data = data_of(cls)
+                    if extra_cols:
+                        data['quality'] = 1.0
+                    w, _ = make(cls, data, lk)
+
+                    def call():
+                        return make(cls, data, lk)[1]
+                    return Ctx(dict(w, data=data), call)
+                out.append(Case(pre + '__init__', f"lever={lk}{',extra column' if extra_cols else ''}", build,
+                                group=pre + '__init__' + ('|x' if extra_cols else '') + ('|none' if lk == 'None' else ''),
+                                schema=lambda res, ctx, cls=cls: sch_table(
+                                    res.data, cols_of(cls) if cls != 'Measurement' else None,
+                                    ctx.watch['data'].index, NA, None, 'data')))
+        if cls == 'Measurement':
+            def build_b(D_):
+                data = data_of('Measurement')
+                m = ms.Measurement(data)
+                pva, em = D.pva(), EM(True)
+                return Ctx(dict(data=data, pva=pva, error_model=em),
+                           lambda: m.compute_matrices(float(data.index[2]), pva, em), recv=lambda: m)
+            out.append(Case(pre + 'compute_matrices', 'abstract (documented NotImplementedError)', build_b,
+                            expect_exc=NotImplementedError))
+            continue
+        for wa in (True, False):
+            for lk in lks:
+                for rate in (True, False):
+                    for hit in (True, False):
+                        if not hit and (lk not in ('-', 'None') or not rate):
+                            continue
+                        def build(D_, cls=cls, wa=wa, lk=lk, rate=rate, hit=hit):
+                            data = data_of(cls)
+                            w, m = make(cls, data, lk)
+                            tm = float(data.index[2]) + (0.0 if hit else 0.5 * D.dt)
+                            k = int(round(tm / D.dt))
+                            pva, em = D.pva(k, rate=rate), EM(wa)
+                            return Ctx(dict(w, data=data, time=tm, pva=pva, error_model=em),
+                                       lambda: m.compute_matrices(tm, pva, em), recv=lambda: m)
+
+                        def sch(res, ctx, hit=hit):
+                            if not hit:
+                                return [] if res is None else ["measurement not available at `time` must give None"]
+                            return [] if isinstance(res, tuple) and len(res) == 3 else ["expected (z, H, R)"]
+                        out.append(Case(pre + 'compute_matrices',
+                                        f"lever={lk},alt={int(wa)},{'pva+rate' if rate else 'pva'},"
+                                        f"{'available' if hit else 'no epoch'}", build,
+                                        group=f"{pre}compute_matrices|{int(wa)}|{int(rate)}|{int(hit)}|{lk == 'None'}",
+                                        schema=sch))
+    return out
+
+
+# ---------------------------------------------------------------------------------------
+# 9. builders: sim, strapdown
+FINDING_GENERATE_IMU_TIME_LIST = 'generate_imu-time-list'
+
+
+@builder('sim.generate_imu', 'sim.generate_sine_velocity_motion')
+def b_sim_motion(D):
+    sim = P().sim
+    out = []
+    nm = 'sim.generate_imu'
+    for st in ('rate', 'increment'):
+        for opt in ('lla+vel', 'lla', 'lla0+vel'):
+            kinds = ['ndarray', 'fortran', 'strided', 'list', 'tuple', 'pandas']
+            for kind in kinds:
+                for tk in (('ndarray', 'index', 'list') if kind == 'ndarray' else ('ndarray',)):
+                    def build(D_, st=st, opt=opt, kind=kind, tk=tk):
+                        tr = D.traj_att().iloc[:60]
+                        tm = tr.index.to_numpy().copy()
+                        c = lambda v, cols: conv(v, kind, cols, tr.index) if conv(v, kind, cols, tr.index) \
+                            is not NA else conv(v, 'ndarray')
+                        time_ = tm if tk == 'ndarray' else pd.Index(tm) if tk == 'index' else tm.tolist()
+                        lla = c(tr[DOC_LLA].to_numpy(), DOC_LLA) if opt != 'lla0+vel' \
+                            else c(tr[DOC_LLA].to_numpy()[0], DOC_LLA)
+                        rph = c(tr[DOC_RPH].to_numpy(), DOC_RPH)
+                        vel = None if opt == 'lla' else c(tr[DOC_VEL].to_numpy(), DOC_VEL)
+                        return Ctx(dict(time=time_, lla=lla, rph=rph, velocity_n=vel),
+                                   lambda: sim.generate_imu(time_, lla, rph, vel, st), info=dict(n=len(tm)))
+                    out.append(Case(nm, f"{kind},time={tk},{opt},{st}", build, group=f"{nm}|{opt}|{st}",
+                                    schema=lambda res, ctx: sch_traj_imu(res, np.asarray(ctx.watch['time']),
+                                                                         ctx.info['n']),
+                                    tol=1e-9, scale=1.0,
+                                    finding=(FINDING_GENERATE_IMU_TIME_LIST
+                                             if tk == 'list' else None)))
+    nm = 'sim.generate_sine_velocity_motion'
+    for st in ('rate', 'increment'):
+        for kind in ('list', 'tuple', 'ndarray', 'strided', 'pandas'):
+            for amp in ('vector', 'scalar'):
+                if amp == 'scalar' and kind not in ('list', 'ndarray'):
+                    continue
+                def build(D_, st=st, kind=kind, amp=amp):
+                    c = lambda v, cols=None: conv(np.asarray(v, dtype=float), kind, cols)
+                    a = dict(lla0=c(D.lla0, DOC_LLA), velocity_mean=c(D.vmean, DOC_VEL),
+                             velocity_change_amplitude=(c(D.vamp, DOC_VEL) if amp == 'vector' else
+                                                        c(0.75) if kind == 'ndarray' else 0.75),
+                             velocity_change_phase_offset=(c([10.0, 80.0, 30.0]) if kind != 'pandas'
+                                                           else [10.0, 80.0, 30.0]))
+                    n = len(np.arange(0, 12.0, D.dt))
+                    return Ctx(a, lambda: sim.generate_sine_velocity_motion(
+                        D.dt, 12.0, a['lla0'], a['velocity_mean'], a['velocity_change_amplitude'],
+                        D.period, a['velocity_change_phase_offset'], st), info=dict(n=n))
+                out.append(Case(nm, f"{kind},amplitude={amp},{st}", build, group=f"{nm}|{amp}|{st}",
+                                schema=lambda res, ctx: sch_traj_imu(res, np.arange(0, 12.0, D.dt), ctx.info['n'])))
+
+        def build_def(D_, st=st):
+            a = dict(lla0=list(D.lla0), velocity_mean=list(D.vmean))
+            return Ctx(a, lambda: sim.generate_sine_velocity_motion(D.dt, 8.0, a['lla0'], a['velocity_mean'],
+                                                                    sensor_type=st))
+        out.append(Case(nm, f"defaults,{st}", build_def, schema=lambda res, ctx: sch_traj_imu(res)))
+    return out
+
+
+@builder('sim.generate_position_measurements', 'sim.generate_ned_velocity_measurements',
+         'sim.generate_body_velocity_measurements', 'sim.generate_pva_error', 'sim.perturb_pva')
+def b_sim_meas(D):
+    sim = P().sim
+    out = []
+    seed = D.seed + 71
+    for fn, cols in (('generate_position_measurements', DOC_LLA), ('generate_ned_velocity_measurements', DOC_VEL),
+                     ('generate_body_velocity_measurements', DOC_BODY_VEL)):
+        nm = 'sim.' + fn
+        for fname in ('DataFrame', 'DataFrame(F)', 'DataFrame(subset)', 'DataFrame+rate'):
+            for sdk in (('float', 'int') if fname == 'DataFrame' else ('float',)):
+                def build(D_, fn=fn, fname=fname, sdk=sdk):
+                    tr = D.traj_rate() if fname == 'DataFrame+rate' else D.traj_att()
+                    if fname == 'DataFrame(F)':
+                        tr = dict(_frame_forms(tr))[fname]
+                    if fname == 'DataFrame(subset)':
+                        tr = tr.iloc[::D.mstep]
+                    sd = 2.0 if sdk == 'float' else 2
+                    return Ctx(dict(trajectory=tr, error_sd=sd),
+                               lambda: getattr(sim, fn)(tr, sd, rng=seed))
+                out.append(Case(nm, f"{fname},sd={sdk},rng=int", build, seeded='int',
+                                group=f"{nm}|{fname == 'DataFrame(subset)'}",
+                                schema=lambda res, ctx, cols=cols: sch_table(res, cols, ctx.watch['trajectory'].index)))
+
+        def build_g(D_, fn=fn):
+            tr = D.traj_att().iloc[:20]
+            return Ctx(dict(trajectory=tr), lambda: getattr(sim, fn)(tr, 2.0))
+        out.append(Case(nm, 'DataFrame,rng=None (documented global generator)', build_g, seeded='global',
+                        repeat=False,
+                        schema=lambda res, ctx, cols=cols: sch_table(res, cols, ctx.watch['trajectory'].index)))
+    nm = 'sim.generate_pva_error'
+    for sdk in ('float', 'int', 'np.float64'):
+        def build(D_, sdk=sdk):
+            c = dict(float=float, int=int)[sdk] if sdk != 'np.float64' else np.float64
+            a = [c(3), c(2), c(1), c(4)]
+            return Ctx(dict(args=a), lambda: sim.generate_pva_error(a[0], a[1], a[2], a[3], rng=seed))
+        out.append(Case(nm, f"sd={sdk},rng=int", build, seeded='int', group=nm,
+                        schema=lambda res, ctx: sch_series(res, DOC_TRAJECTORY_ERROR)))
+    out.append(Case(nm, 'rng=None (documented global generator)',
+                    lambda D_: Ctx({}, lambda: sim.generate_pva_error(1.0, 0.1, 0.1, 0.5)), seeded='global',
+                    repeat=False, schema=lambda res, ctx: sch_series(res, DOC_TRAJECTORY_ERROR)))
+    nm = 'sim.perturb_pva'
+    for own in (False, True):
+        for rate in (False, True):
+            def build(D_, own=own, rate=rate):
+                pva, pe = D.pva(rate=rate, own=own), D.pva_error()
+                return Ctx(dict(pva=pva, pva_error=pe), lambda: sim.perturb_pva(pva, pe))
+            out.append(Case(nm, f"Series({'own' if own else 'row'}){'+rate' if rate else ''}", build,
+                            group=f"{nm}|{int(rate)}",
+                            schema=lambda res, ctx: sch_series(res, list(ctx.watch['pva'].index))))
+    return out
+
+
+ENV_PROBES = {}
+
+
+def env_probe(name):
+    """Environment probes: a library call pyins relies on that this scipy/numpy rejects."""
+    if name not in ENV_PROBES:
+        if name == 'scipy-from_euler-single-axis-1d':
+            from scipy.spatial.transform import Rotation
+            try:
+                Rotation.from_euler('x', np.zeros(4), True)
+                ENV_PROBES[name] = None
+            except Exception as e:
+                ENV_PROBES[name] = f"{type(e).__name__}: {e}"
+        else:
+            ENV_PROBES[name] = None
+    return ENV_PROBES[name]
+
+
+@builder('sim.Turntable.__init__', 'sim.Turntable.rotate', 'sim.Turntable.rest', 'sim.Turntable.generate_imu')
+def b_turntable(D):
+    TT = P().sim.Turntable
+    pre = 'sim.Turntable.'
+    rph = np.array([0.5, -0.3, 20.0])
+    out = []
+
+    def make(kind, full=True):
+        lla = conv(np.asarray(D.lla0), kind, DOC_LLA)
+        a = dict(table_lla=lla)
+        if full:
+            a['table_rph'] = conv(rph, kind, DOC_RPH)
+            return a, TT(lla, a['table_rph'], 0.01, 25, 30)
+        return a, TT(lla)
+
+    def script(tb):
+        tb.rest(0.5)
+        tb.rotate('inner', 90)
+        tb.rotate('outer', -45.0, 10, 15, 'tilt')
+        tb.rest(0.4, 'pause')
+
+    for kind in ('list', 'tuple', 'ndarray', 'strided', 'pandas'):
+        for full in (True, False):
+            def build(D_, kind=kind, full=full):
+                a, _ = make(kind, full)
+                return Ctx(a, lambda: (TT(a['table_lla'], a['table_rph'], 0.01, 25, 30) if full
+                                       else TT(a['table_lla'])))
+            out.append(Case(pre + '__init__', f"{kind}{'' if full else ',defaults'}", build,
+                            group=pre + '__init__|' + str(full)))
+
+        def build_rot(D_, kind=kind):
+            a, tb = make(kind)
+            tb.rest(0.5)
+            return Ctx(a, lambda: (tb.rotate('inner', 90), tb.rotate('outer', -30.0, 10, 15, 'tilt')),
+                       recv=lambda: tb)
+        out.append(Case(pre + 'rotate', kind, build_rot, group=pre + 'rotate'))
+
+        def build_rest(D_, kind=kind):
+            a, tb = make(kind)
+            tb.rotate('outer', 20)
+            return Ctx(a, lambda: (tb.rest(1.5), tb.rest(0.25, 'x')), recv=lambda: tb)
+        out.append(Case(pre + 'rest', kind, build_rest, group=pre + 'rest'))
+        for st in ('rate', 'increment'):
+            def build_gen(D_, kind=kind, st=st):
+                a, tb = make(kind)
+                script(tb)
+                return Ctx(a, lambda: tb.generate_imu(0.02, st), recv=lambda: tb)
+
+            def sch(res, ctx):
+                pr = sch_traj_imu(res)
+                if isinstance(res, tuple) and len(res) == 3:
+                    if not (isinstance(res[2], np.ndarray) and len(res[2]) == len(res[0])):
+                        pr.append("labels: expected ndarray with one label per sample")
+                else:
+                    pr.append("expected (trajectory, imu, labels)")
+                return pr
+            out.append(Case(pre + 'generate_imu', f"{kind},{st}", build_gen, group=f"{pre}generate_imu|{st}",
+                            schema=sch, tol=1e-9, scale=1.0, env_blocked='scipy-from_euler-single-axis-1d'))
+    return out
+
+
+@builder('strapdown.compute_increments_from_imu')
+def b_increments(D):
+    sd = P().strapdown
+    nm = 'strapdown.compute_increments_from_imu'
+    out = []
+    for st in ('rate', 'increment'):
+        for fname in ('DataFrame', 'DataFrame(F)', 'DataFrame(+column)', 'DataFrame(reordered)'):
+            def build(D_, st=st, fname=fname):
+                imu = D.imu(st)
+                if fname == 'DataFrame(F)':
+                    imu = dict(_frame_forms(imu))[fname]
+                if fname == 'DataFrame(+column)':
+                    imu['temperature'] = 20.0
+                if fname == 'DataFrame(reordered)':
+                    imu = imu[DOC_ACCEL + DOC_GYRO]
+                return Ctx(dict(imu=imu), lambda: sd.compute_increments_from_imu(imu, st))
+            out.append(Case(nm, f"{fname},{st}", build, group=f"{nm}|{st}",
+                            schema=lambda res, ctx: sch_table(res, DOC_INCREMENTS, ctx.watch['imu'].index[1:],
+                                                              NA, len(ctx.watch['imu']) - 1)))
+    return out
+
+
+@builder('strapdown.Integrator.__init__', 'strapdown.Integrator.integrate', 'strapdown.Integrator.predict',
+         'strapdown.Integrator.get_time', 'strapdown.Integrator.get_pva', 'strapdown.Integrator.set_pva')
+def b_integrator(D):
+    IT = P().strapdown.Integrator
+    pre = 'strapdown.Integrator.'
+    out = []
+    for wa in (True, False):
+        w = f"|alt={int(wa)}"
+        for own in (False, True):
+            o = 'own' if own else 'row'
+
+            def start(own=own, wa=wa, n0=20):
+                pva = D.pva(0, own=own)           # VD != 0 on purpose (with_altitude=False zeroes a copy)
+                it = IT(pva, wa)
+                if n0:
+                    it.integrate(D.inc().iloc[:n0])
+                return pva, it
+
+            def build_init(D_, own=own, wa=wa):
+                pva = D.pva(0, own=own)
+                return Ctx(dict(pva=pva), lambda: IT(pva, wa))
+            out.append(Case(pre + '__init__', f"Series({o}){w}", build_init, group=pre + '__init__' + w,
+                            schema=lambda res, ctx: sch_table(res.trajectory, DOC_TRAJECTORY, None, 'time', 1,
+                                                              'trajectory')))
+            for fname in ('DataFrame', 'DataFrame(F)', 'DataFrame(+column)'):
+                def build_int(D_, fname=fname, start=start):
+                    pva, it = start(n0=0)
+                    inc = D.inc()
+                    if fname == 'DataFrame(F)':
+                        inc = dict(_frame_forms(inc))[fname]
+                    if fname == 'DataFrame(+column)':
+                        inc['flag'] = 1.0
+                    a, b = inc.iloc[:70], inc.iloc[70:150]
+
+                    def call():
+                        r1 = it.integrate(a)
+                        r2 = it.integrate(b)
+                        return r1, r2, it.trajectory
+                    return Ctx(dict(pva=pva, increments=inc, chunk1=a, chunk2=b), call, recv=lambda: it,
+                               info=dict(t0=pva.name))
+
+                def sch(res, ctx):
+                    a, b = ctx.watch['chunk1'], ctx.watch['chunk2']
+                    t0 = [ctx.info['t0']]
+                    return (sch_table(res[0], DOC_TRAJECTORY, np.concatenate([t0, a.index]), 'time', None, 'chunk 1') +
+                            sch_table(res[1], DOC_TRAJECTORY, np.concatenate([a.index[-1:], b.index]), 'time', None,
+                                      'chunk 2') +
+                            sch_table(res[2], DOC_TRAJECTORY, np.concatenate([t0, a.index, b.index]), 'time', None,
+                                      'Integrator.trajectory'))
+                out.append(Case(pre + 'integrate', f"{fname},pva=Series({o}){w}", build_int,
+                                group=pre + 'integrate' + w, schema=sch))
+
+            def build_pred(D_, start=start):
+                pva, it = start()
+                row = D.inc().iloc[20]
+                return Ctx(dict(pva=pva, increment=row), lambda: it.predict(row), recv=lambda: it)
+            out.append(Case(pre + 'predict', f"Series(row),pva=Series({o}){w}", build_pred,
+                            group=pre + 'predict' + w, schema=lambda res, ctx: sch_series(res, DOC_TRAJECTORY)))
+
+            def build_pred2(D_, start=start):
+                pva, it = start()
+                row = D.inc().iloc[20]
+                row = pd.Series(np.array(row.to_numpy()), index=list(row.index), name=row.name)
+                return Ctx(dict(pva=pva, increment=row), lambda: it.predict(row), recv=lambda: it)
+            out.append(Case(pre + 'predict', f"Series(own),pva=Series({o}){w}", build_pred2,
+                            group=pre + 'predict' + w, schema=lambda res, ctx: sch_series(res, DOC_TRAJECTORY)))
+
+            def build_time(D_, start=start):
+                pva, it = start()
+                return Ctx(dict(pva=pva), lambda: it.get_time(), recv=lambda: it)
+            out.append(Case(pre + 'get_time', f"pva=Series({o}){w}", build_time, group=pre + 'get_time' + w))
+
+            def build_get(D_, start=start):
+                pva, it = start()
+                return Ctx(dict(pva=pva), lambda: it.get_pva(), recv=lambda: it)
+            out.append(Case(pre + 'get_pva', f"pva=Series({o}){w}", build_get, group=pre + 'get_pva' + w,
+                            schema=lambda res, ctx: sch_series(res, DOC_TRAJECTORY)))
+            for own2 in (False, True):
+                def build_set(D_, start=start, own2=own2):
+                    pva, it = start()
+                    new = D.pva(25, own=own2)
+
+                    def call():
+                        it.set_pva(new)
+                        return it.get_pva(), it.integrate(D.inc().iloc[20:30])
+                    return Ctx(dict(pva=pva, new_pva=new), call, recv=lambda: it)
+                out.append(Case(pre + 'set_pva', f"Series({'own' if own2 else 'row'}),pva=Series({o}){w}",
+                                build_set, group=pre + 'set_pva' + w))
+    return out
+
+
+# ---------------------------------------------------------------------------------------
+# 10. builders: filters
+FILTER_EXEMPT = ('gyro_model.bias', 'gyro_model.transform', 'accel_model.bias', 'accel_model.transform')
+
+
+def _filter_configs(D):
+    cfg = [
+        dict(tag='3d,scale-misal,pos+vel+body', wa=True, sm=True, meas=('pos', 'vel', 'body'), models=True,
+             variants=('plain', 'reused', 'polluted', 'lever-list', 'int-sd', 'fortran')),
+        dict(tag='2d,bias-only,pos+vel', wa=False, sm=False, meas=('pos', 'vel'), models=True,
+             variants=('plain', 'reused', 'polluted')),
+        dict(tag='3d,default-models,no-measurements', wa=True, sm=False, meas=None, models=False,
+             variants=('plain',)),
+    ]
+    if D.rnd > 0:
+        cfg.append(dict(tag='2d,scale-misal,pos+body', wa=False, sm=True, meas=('pos', 'body'), models=True,
+                        variants=('plain', 'reused', 'polluted', 'fortran')))
+        cfg.append(dict(tag='3d,bias-only,empty-list', wa=True, sm=False, meas=(), models=True,
+                        variants=('plain', 'reused')))
+    return cfg
+
+
+def _filter_inputs(D, c, variant):
+    ms = P().measurements
+    lever = np.array([0.6, -0.3, 0.9])
+    lv = lever.tolist() if variant == 'lever-list' else lever.copy()
+    watch = {}
+    meas = None
+    if c['meas'] is not None:
+        meas = []
+        for kind in c['meas']:
+            data = D.meas(kind)
+            watch['data_' + kind] = data
+            if kind == 'pos':
+                meas.append(ms.Position(data, 1.0, lv))
+            elif kind == 'vel':
+                meas.append(ms.NedVelocity(data, 0.1, lv))
+            else:
+                meas.append(ms.BodyVelocity(data, 0.1))
+        watch['imu_to_antenna_b'] = lv
+    gm = D.est_model('gyro', c['sm']) if c['models'] else None
+    am = D.est_model('accel', c['sm']) if c['models'] else None
+    if variant == 'polluted' and gm is not None:
+        rs = np.random.RandomState(D.seed + 83)
+        gm.update_estimates(rs.normal(0, 1e-4, gm.n_states))
+        am.update_estimates(rs.normal(0, 1e-2, am.n_states))
+    sds = (3, 1, 1, 2) if variant == 'int-sd' else (3.0, 1.0, 1.0, 2.0)
+    inc = D.inc()
+    if variant == 'fortran':
+        inc = dict(_frame_forms(inc))['DataFrame(F)']
+    watch.update(increments=inc, gyro_model=gm, accel_model=am, measurements=meas, sds=sds)
+    return watch, meas, gm, am, sds, inc
+
+
+def _filter_schema(kind, c):
+    def f(res, ctx):
+        if not isinstance(res, dict):
+            return [f"expected Bunch, got {type(res).__name__}"]
+        want = ['trajectory', 'trajectory_sd', 'gyro', 'gyro_sd', 'accel', 'accel_sd', 'innovations']
+        miss = [k for k in want if k not in res]
+        if miss:
+            return [f"Bunch fields missing: {miss}"]
+        gs = states_of(dict(bias_sd=1e-5, scale_misal_sd=np.full((3, 3), 1e-3) if c['sm'] else None)) \
+            if c['models'] else []
+        as_ = states_of(dict(bias_sd=[1e-2, 2e-2, 1e-2],
+                             scale_misal_sd=[[1e-3, 0, 0], [0, 1e-3, 0], [0, 1e-4, 1e-3]] if c['sm'] else None)) \
+            if c['models'] else []
+        inc = ctx.watch['increments']
+        pr = []
+        if kind == 'feedback':
+            t0 = ctx.watch['initial_pva'].name
+            pr += sch_table(res['trajectory'], DOC_TRAJECTORY, np.concatenate([[t0], inc.index]), NA, None,
+                            'trajectory')
+        else:
+            pr += sch_table(res['trajectory'], DOC_TRAJECTORY, None, NA, None, 'trajectory')
+        pr += sch_table(res['trajectory_sd'], DOC_TRAJECTORY_ERROR, None, NA, None, 'trajectory_sd')
+        n = len(res['trajectory_sd'])
+        for k, st in (('gyro', gs), ('gyro_sd', gs), ('accel', as_), ('accel_sd', as_)):
+            pr += sch_table(res[k], st, res['trajectory_sd'].index, NA, n, k)
+        names = dict(pos='Position', vel='NedVelocity', body='BodyVelocity')
+        wantk = [names[m] for m in (c['meas'] or ())]
+        if list(res['innovations'].keys()) != wantk:
+            pr.append(f"innovations keys {list(res['innovations'].keys())} != measurement class names {wantk}")
+        for k, v in res['innovations'].items():
+            if not isinstance(v, pd.DataFrame):
+                pr.append(f"innovations[{k}] is {type(v).__name__}, documented DataFrame")
+        return pr
+    return f
+
+
+@builder('filters.run_feedback_filter', 'filters.run_feedforward_filter')
+def b_filters(D):
+    fl = P().filters
+    out = []
+    for kind in ('feedback', 'feedforward'):
+        nm = f"filters.run_{kind}_filter"
+        for c in _filter_configs(D):
+            for variant in c['variants']:
+                def build(D_, c=c, variant=variant, kind=kind):
+                    watch, meas, gm, am, sds, inc = _filter_inputs(D, c, variant)
+                    if kind == 'feedback':
+                        pva0 = D.pva0()
+                        watch['initial_pva'] = pva0
+
+                        def run():
+                            return fl.run_feedback_filter(pva0, sds[0], sds[1], sds[2], sds[3], inc, gm, am, meas,
+                                                          time_step=0.5, with_altitude=c['wa'])
+                    else:
+                        nominal, comp = D.traj(), D.computed(c['wa'])
+                        if variant == 'fortran':
+                            nominal = dict(_frame_forms(nominal))['DataFrame(F)']
+                            comp = dict(_frame_forms(comp))['DataFrame(F)']
+                        watch.update(trajectory_nominal=nominal, trajectory=comp)
+
+                        def run():
+                            return fl.run_feedforward_filter(nominal, comp, sds[0], sds[1], sds[2], sds[3], gm, am,
+                                                             meas, inc if c['sm'] or variant == 'fortran' else None,
+                                                             time_step=0.5, with_altitude=c['wa'])
+                    if variant == 'reused':
+                        def call():
+                            run()                    # leaves estimates in gm / am
+                            return run()
+                    else:
+                        call = run
+                    return Ctx(watch, call, exempt=FILTER_EXEMPT)
+                exact = variant in ('plain', 'reused', 'polluted')
+                out.append(Case(nm, f"{c['tag']}|{variant}", build,
+                                group=f"{nm}|{c['tag']}",
+                                tol=0 if exact else 1e-7, group_kind='determinism' if exact else 'forms',
+                                schema=_filter_schema(kind, c), heavy=True, repeat=(variant == 'plain')))
+    return out
+
+
+# ---------------------------------------------------------------------------------------
+# 11. runner
+def all_cases(D):
+    cases, errors, seen = [], [], set()
+    for nm, f in BUILDERS.items():
+        if id(f) in seen:
+            continue
+        seen.add(id(f))
+        try:
+            cases += f(D)
+        except Exception:
+            errors.append(([k for k, g in BUILDERS.items() if g is f], traceback.format_exc()))
+    return cases, errors
+
+
+def _global_state():
+    s = np.random.get_state()
+    return (s[0], s[1].tobytes(), s[2], s[3], s[4]), random.getstate()
+
+
+class Runner:
+    def __init__(self, r=None, seed=0, n_rounds=1, verbose=False):
+        self.r, self.seed, self.n_rounds, self.verbose = r, seed, n_rounds, verbose
+        self.fails = []            # dict(callable, form, kind, what, replay)
+        self.brokens = []          # (name, detail)
+        self.findings = []         # recorded findings on the reference tree
+        self.blocked = {}          # callable -> environment probe message
+        self.global_rng_users = []
+        self.exempt_seen = set()
+        self.forms = {}            # callable -> [forms]
+        self.kind_counts = dict(mutation=0, determinism=0, forms=0, schema=0)
+        self.group_ref = {}
+        self.first = {}            # (name, form) -> snapshot of the first result
+        self.timing = {}
+
+    def say(self, *a):
+        if self.verbose:
+            print(*a, flush=True)
+
+    def fail(self, case_name, form, kind, what, D, extra=None):
+        rep = dict(key=f"{case_name}|{kind}", callable=case_name, form=form, kind=kind, seed=self.seed,
+                   round=D.rnd if D is not None else 0, n_rounds=self.n_rounds, what=what)
+        if D is not None:
+            rep['data'] = D.params()
+        if extra:
+            rep.update(extra)
+        self.fails.append(dict(callable=case_name, form=form, kind=kind, what=what, replay=rep))
+        self.say(f"FAIL [{kind}] {case_name} <{form}>: {what}")
+
+    def broken(self, name, detail):
+        self.brokens.append((name, detail))
+        self.say(f"BROKEN {name}: {str(detail)[-600:]}")
+
+    # -- one call with argument snapshots
+    def one_call(self, case, D):
+        ctx = case.build(D)
+        w = dict(ctx.watch)
+        w['<defaults>'] = _defaults_of(case.name)
+        before = snap(w, True)
+        refs = [(p, o, snap(o, True)) for p, o in collect_refs(w)]
+        ex = ctx.exempt
+
+        def exempt(p):
+            hit = any(p == e or p.startswith(e + '.') or p.startswith(e + '[') or p.startswith(e + ' ')
+                      for e in ex)
+            if hit:
+                self.exempt_seen.add(f"{case.name}: {p.split(' ')[0]}")
+            return hit
+        g0 = _global_state()
+        exc = tb = res = None
+        with warnings.catch_warnings():
+            warnings.simplefilter('ignore')
+            try:
+                res = ctx.call()
+            except Exception as e:          # noqa
+                exc, tb = e, traceback.format_exc()
+        g1 = _global_state()
+        after = snap(w, True)
+        mut = [p for p in snap_diffs(before, after) if not exempt(p)]
+        for p, o, s in refs:
+            if snap(o, True) != s and not exempt(p) and not any(m == p or m.startswith(p) for m in mut):
+                mut.append(p + ' (original object modified in place)')
+        sn = None
+        if exc is None:
+            sn = snap((res, ctx.recv() if ctx.recv else None))
+        return dict(ctx=ctx, res=res, exc=exc, tb=tb, mut=mut, rng=(g0 != g1), snap=sn)
+
+    def handle_exception(self, case, c, D):
+        msg = f"{type(c['exc']).__name__}: {c['exc']}"
+        if 'read-only' in msg or 'read only' in msg:
+            self.fail(case.name, case.form, 'mutation',
+                      f"attempted in-place write to caller's data ({msg})", D)
+        else:
+            self.broken(f"{case.name} <{case.form}>", c['tb'])
+
+    def ensure_ref(self, case, D, cases):
+        if case.group and case.group not in self.group_ref:
+            first = next(k for k in cases if k.group == case.group)
+            if first is not case:
+                self.check_case(first, D, cases)
+
+    def check_case(self, case, D, cases, interleave=()):
+        r = self.r
+        self.forms.setdefault(case.name, [])
+        if case.form not in self.forms[case.name]:
+            self.forms[case.name].append(case.form)
+        if r is not None:
+            r.case((case.name, case.form, D.rnd), sample=dict(callable=case.name, form=case.form))
+        try:
+            c1 = self.one_call(case, D)
+        except Exception:
+            self.broken(f"{case.name} <{case.form}> (building the arguments)", traceback.format_exc())
+            return
+        # mutation is checked whatever the outcome of the call was
+        self.kind_counts['mutation'] += 1
+        if c1['mut']:
+            self.fail(case.name, case.form, 'mutation',
+                      f"argument(s) changed by the call: {c1['mut'][:6]}", D)
+        blocked = case.env_blocked and env_probe(case.env_blocked)
+        if blocked:
+            self.blocked[case.name] = f"{case.env_blocked}: {blocked}"
+            if c1['exc'] is None:
+                self.broken(f"{case.name} <{case.form}>", "environment probe fails but the call succeeded")
+            return
+        if case.expect_exc is not None:
+            if not isinstance(c1['exc'], case.expect_exc):
+                self.broken(f"{case.name} <{case.form}>",
+                            f"documented {case.expect_exc.__name__} not raised: {c1['exc']!r}")
+            return
+        if c1['exc'] is not None:
+            if case.finding:
+                f = dict(key=case.finding, callable=case.name, form=case.form,
+                         what=f"{type(c1['exc']).__name__}: {c1['exc']}")
+                if not any(g['key'] == f['key'] and g['callable'] == f['callable'] for g in self.findings):
+                    self.findings.append(f)
+                    if REPORT_FINDINGS_AS_VIOLATIONS:
+                        self.fail(case.name, case.form, 'forms', f"documented form raises {f['what']}", D,
+                                  extra=dict(key=case.finding))
+                return
+            self.handle_exception(case, c1, D)
+            return
+        # global generator
+        if case.seeded == 'global':
+            if c1['rng']:
+                u = f"{case.name} <{case.form}>"
+                if u not in self.global_rng_users:
+                    self.global_rng_users.append(u)
+        elif c1['rng']:
+            self.fail(case.name, case.form, 'determinism',
+                      "numpy/python GLOBAL random generator state changed by the call "
+                      f"(seeded={case.seeded})", D)
+        # b. determinism
+        if case.repeat and case.seeded != 'global':
+            self.kind_counts['determinism'] += 1
+            for other in interleave:
+                try:
+                    with warnings.catch_warnings():
+                        warnings.simplefilter('ignore')
+                        other.build(D).call()
+                except Exception:
+                    pass
+            try:
+                c2 = self.one_call(case, D)
+            except Exception:
+                self.broken(f"{case.name} <{case.form}> (second call)", traceback.format_exc())
+                return
+            if c2['exc'] is not None:
+                self.fail(case.name, case.form, 'determinism',
+                          f"second call with equal inputs raised {type(c2['exc']).__name__}: {c2['exc']}", D)
+            elif c2['snap'] != c1['snap']:
+                d = snap_diffs(c1['snap'], c2['snap'])
+                self.fail(case.name, case.form, 'determinism',
+                          f"two calls with equal inputs differ bit-wise at {d[:5]} "
+                          f"([0]=returned value, [1]=receiver state)", D)
+            if c2['mut'] and not c1['mut']:
+                self.fail(case.name, case.form, 'mutation',
+                          f"argument(s) changed by the second call: {c2['mut'][:6]}", D)
+            if not case.heavy:
+                self.first[(case.name, case.form)] = (case, c1['snap'])
+        # c. forms
+        if case.group:
+            if case.group not in self.group_ref:
+                self.group_ref[case.group] = (case.form, c1['res'])
+            else:
+                self.kind_counts[case.group_kind] = self.kind_counts.get(case.group_kind, 0) + 1
+                rform, ref = self.group_ref[case.group]
+                try:
+                    want = case.expect(ref) if case.expect else ref
+                    d = values_differ(want, c1['res'], case.tol, case.scale)
+                except Exception:
+                    d = "comparison failed: " + traceback.format_exc()[-300:]
+                if d:
+                    self.fail(case.name, case.form, case.group_kind,
+                              f"result differs from the result for form <{rform}>: {d}", D,
+                              extra=dict(reference_form=rform))
+        # d. schema
+        if case.schema is not None:
+            self.kind_counts['schema'] += 1
+            try:
+                pr = case.schema(c1['res'], c1['ctx'])
+            except Exception:
+                pr = ["schema check crashed: " + traceback.format_exc()[-400:]]
+            if pr:
+                self.fail(case.name, case.form, 'schema', '; '.join(pr[:4]), D)
+
+    def third_pass(self, D):
+        for (name, form), (case, s1) in list(self.first.items()):
+            try:
+                c3 = self.one_call(case, D)
+            except Exception:
+                continue
+            if c3['exc'] is None and c3['snap'] != s1:
+                d = snap_diffs(s1, c3['snap'])
+                self.fail(name, form, 'determinism',
+                          f"call repeated at the end of the run differs bit-wise from the first call at {d[:5]} "
+                          "(state carried between calls)", D)
+        self.first = {}
+
+    def check_constants(self):
+        u = P().util
+        for k, lit in UTIL_CONSTANTS.items():
+            self.kind_counts['schema'] += 1
+            got = getattr(u, k, None)
+            if got is None or list(got) != list(lit):
+                self.fail(f"util.{k}", 'constant', 'schema',
+                          f"pyins.util.{k} = {got!r} differs from the documented column list {lit}", None)
+
+    def run_round(self, rnd):
+        t0 = time.time()
+        D = Data(self.seed, rnd)
+        fp = D.fingerprint()
+        cases, errors = all_cases(D)
+        for names, tb in errors:
+            self.broken(f"builder for {names[:3]}...", tb)
+        self.group_ref = {}
+        py = random.Random(self.seed + 1977 + rnd)
+        cheap = [c for c in cases if not c.heavy and c.seeded != 'global' and not c.finding
+                 and not c.env_blocked and c.expect_exc is None]
+        for case in cases:
+            t = time.time()
+            inter = py.sample(cheap, 2) if (cheap and not case.heavy) else (py.sample(cheap, 3) if cheap else ())
+            self.check_case(case, D, cases, inter)
+            self.timing[case.name] = self.timing.get(case.name, 0.0) + time.time() - t
+        self.third_pass(D)
+        if D.fingerprint() != fp:
+            self.broken('data-set integrity', 'base arrays of the harness data set were modified')
+        self.say(f"round {rnd}: {len(cases)} cases, {time.time() - t0:.1f}s")
+        return D, cases
+
+
+class _SingleThreadBlas:
+    """Best effort: run the bundled OpenBLAS single-threaded while the checks run (the matrices
+    are tiny; on a loaded machine the thread pool makes a filter run 15x slower).  Restored on exit."""
+    def __enter__(self):
+        self.saved = []
+        try:
+            import ctypes
+            P()                                   # load pyins (numpy + scipy BLAS) before scanning
+            import scipy.linalg                   # noqa
+            libs = sorted({l.split()[-1] for l in open('/proc/self/maps') if 'openblas' in l})
+            for p in libs:
+                L = ctypes.CDLL(p)
+                for pre in ('scipy_', ''):
+                    for suf in ('', '64_', '_64_'):
+                        g, s_ = pre + 'openblas_get_num_threads' + suf, pre + 'openblas_set_num_threads' + suf
+                        if hasattr(L, g) and hasattr(L, s_):
+                            self.saved.append((getattr(L, s_), int(getattr(L, g)())))
+                            getattr(L, s_)(1)
+                            break
+                    else:
+                        continue
+                    break
+        except Exception:
+            pass
+        return self
+
+    def __exit__(self, *a):
+        for setter, n in self.saved:
+            try:
+                setter(n)
+            except Exception:
+                pass
+
+
+def run_dynamic(r, n_rounds=1):
+    """Run the dynamic validation; returns the number of distinct failing (callable, kind)."""
+    with _SingleThreadBlas():
+        return _run_dynamic(r, n_rounds)
+
+
+def _run_dynamic(r, n_rounds=1):
+    t0 = time.time()
+    g_start = _global_state()
+    R = Runner(r, r.seed, n_rounds, verbose=bool(getattr(r, 'verbose', False)))
+    api = enumerate_api()
+    names = [n for n, _ in api]
+    R.check_constants()
+    ncases = 0
+    params = []
+    for rnd in range(max(1, n_rounds)):
+        try:
+            D, cases = R.run_round(rnd)
+            ncases += len(cases)
+            params.append(D.params())
+        except Exception:
+            R.broken(f"round {rnd}", traceback.format_exc())
+    # coverage: fail closed
+    uncovered = []
+    for n in names:
+        if n not in BUILDERS:
+            uncovered.append(n)
+            r.broken('coverage', n, 'no argument builder')
+        elif not R.forms.get(n):
+            uncovered.append(n)
+            r.broken('coverage', n, 'builder produced no executed case')
+    seen_b = set()
+    for nm, det in R.brokens:
+        key = (nm.split(' <')[0], str(det).strip().splitlines()[-1][:120] if str(det).strip() else '')
+        if key in seen_b:
+            continue
+        seen_b.add(key)
+        if len(seen_b) <= 12:
+            r.broken('dynamic', nm, det)
+    # distinct failures
+    distinct = {}
+    for f in R.fails:
+        distinct.setdefault((f['callable'], f['kind']), f)
+    for f in list(distinct.values())[:5]:
+        r.violation(f"C19 {f['kind']}: {f['callable']} <{f['form']}>: {f['what']}", f['replay'])
+    kinds_used = {}
+    for n, fs in R.forms.items():
+        for f in fs:
+            k = f.split('/')[0].split(',')[0].split('|')[0].split(':')[-1]
+            kinds_used[k] = kinds_used.get(k, 0) + 1
+    slow = sorted(R.timing.items(), key=lambda kv: -kv[1])[:5]
+    r.coverage['dynamic'] = dict(
+        public_callables=len(names), covered=len(names) - len(uncovered), uncovered=uncovered,
+        extra_callables=[e for e in EXTRA if R.forms.get(e)],
+        by_kind_of_member={k: sum(1 for _, kk in api if kk == k) for k in sorted(set(k for _, k in api))},
+        rounds=max(1, n_rounds), cases=ncases, checks=R.kind_counts,
+        forms_per_callable={n: len(R.forms.get(n, [])) for n in names + EXTRA},
+        forms_min=min([len(R.forms.get(n, [])) for n in names] or [0]),
+        forms_total=sum(len(v) for v in R.forms.values()),
+        leading_form_token_distribution=dict(sorted(kinds_used.items(), key=lambda kv: -kv[1])[:25]),
+        form_legend=("ndarray=C-contiguous float64 (0-d: np.float64); fortran=F-ordered; strided=non-contiguous "
+                     "view of a larger array (0-d: 0-d ndarray); list/tuple=nested python (0-d: float); "
+                     "pandas=Series/DataFrame; /stack=n rows, /single=one row, /stack1=1-row stack; "
+                     "Series(row)=df.iloc[k], Series(own)=free-standing; DataFrame(F)=Fortran-ordered block"),
+        data=params,
+        global_rng_users=sorted(R.global_rng_users),
+        global_rng_untouched_overall=None,
+        documented_exemptions=sorted(R.exempt_seen),
+        blocked_by_environment=R.blocked,
+        findings=R.findings,
+        failures=[dict(callable=f['callable'], form=f['form'], kind=f['kind'], what=f['what'][:300])
+                  for f in distinct.values()],
+        failures_total=len(R.fails), broken=len(R.brokens),
+        slowest=[(k, round(v, 2)) for k, v in slow], wall_s=round(time.time() - t0, 1))
+    r.coverage['dynamic']['global_rng_untouched_overall'] = (
+        (_global_state() == g_start) if not R.global_rng_users else 'documented users ran')
+    return len(distinct)
+
+
+def replay_dynamic(obj):
+    """Re-run one recorded failing case on the implementation; 1 if it still fails."""
+    print("C19 dynamic replay:", {k: obj.get(k) for k in ('callable', 'form', 'kind', 'seed', 'round')})
+    R = Runner(None, int(obj.get('seed', 0)), int(obj.get('n_rounds', 1)), verbose=True)
+    if obj.get('form') == 'constant':
+        R.check_constants()
+    else:
+        D = Data(R.seed, int(obj.get('round', 0)))
+        cases, errors = all_cases(D)
+        for names, tb in errors:
+            print("builder error", names, tb)
+        hit = [c for c in cases if c.name == obj['callable'] and c.form == obj['form']]
+        if not hit:
+            print("case not found (builders changed?)")
+            return 1
+        case = hit[0]
+        cheap = [c for c in cases if not c.heavy and c.seeded != 'global' and not c.finding
+                 and not c.env_blocked and c.expect_exc is None]
+        R.ensure_ref(case, D, cases)
+        if case.group and R.group_ref.get(case.group, (None,))[0] != case.form or not case.group:
+            R.check_case(case, D, cases, random.Random(R.seed).sample(cheap, 2) if cheap else ())
+        R.third_pass(D)
+        for nm, det in R.brokens:
+            print("BROKEN", nm, str(det)[-800:])
+    same = [f for f in R.fails if f['callable'] == obj['callable'] and f['kind'] == obj['kind']]
+    other = [f for f in R.fails if f not in same]
+    for f in same:
+        print(f"still fails [{f['kind']}] {f['callable']} <{f['form']}>: {f['what']}")
+    for f in other:
+        print(f"(other failure) [{f['kind']}] {f['callable']} <{f['form']}>: {f['what']}")
+    if not same:
+        print("no failure of the recorded kind on replay")
+    return 1 if (same or (R.brokens and not R.fails)) else 0
